@@ -1,9 +1,19 @@
-"""C02 - mesh construction normalises raw data, whatever its form (structural clauses)."""
+"""C02 - mesh construction normalises raw data, whatever its form (structural clauses).
+
+The rules do not match the layout of the code.  RawMeshData.prepare() and its steps, the container classes, the class dispatch and
+from_arrays are *evaluated symbolically* on small template inputs (msa/rules/hb_eval.py: named vertex symbols with a fixed
+relative order, small containers, helper functions / tables / comprehensions / the container classes followed through their own
+syntax trees; nothing of the package is imported or run) and the obligations are stated on the resulting template data.  Code
+the evaluator cannot follow gives `undecided`, never a violation."""
 from __future__ import annotations
 import ast
-from .. import au, sym, order
+from collections import Counter
+from fractions import Fraction
+from .. import au
 from ..core import AnalysisError
-from ..rules import common, rows, tables
+from ..rules import rows
+from ..rules import hb_eval as E, hb_mesh as M
+from ..rules.hb_eval import Unknown, Raised, Obj, Opaque, SList, AttrModel
 
 MD = "mesh.mesh_data"
 DC = "mesh.data_container"
@@ -12,25 +22,30 @@ BASE = "mesh.datatypes.base"
 RMD = "RawMeshData"
 
 EXPLANATION = (
-    "Static conformance of RawMeshData.prepare() and the container classes: row-type agnosticism of every consumer of index "
-    "rows (R-ROW), lock-step updates of the parallel corner arrays, keyify normalisation of every stored edge, "
-    "check-then-add de-duplication, edge validity predicate under all orderings, compaction offset of the filtered rebuild, "
-    "class dispatch table, raw->prepared typestate of hard-edge flagging, order of the phases of prepare(), shape of corner "
-    "generation. Structural necessary conditions only.")
+    "Bounded symbolic evaluation of RawMeshData.prepare() and its steps, of the container classes, of the class dispatch and of "
+    "from_arrays on template inputs (no code of the package is imported or run): every stored edge has its low index first; "
+    "completion adds every side of every face / every face of every cell exactly once next to the declared ones; an edge is kept "
+    "iff a != b and both indices are in range (all orderings on a grid), survivors keep their attribute values under their new index; "
+    "one corner record (element, owner) per incidence in element order, the two parallel arrays in step; class dispatch and container "
+    "exposure by dimension; hard-edge flags only on declared edges, also when data is prepared again; order of the phases of "
+    "prepare(); from_arrays pads / rejects / range-checks. Row-type agnosticism of every consumer of index rows (R-ROW) is syntactic. "
+    "Structural necessary conditions on templates.")
 
 RULES = {
     "C02-R1": "index rows are used only through sequence-agnostic operations (R-ROW)",
-    "C02-P1": "the parallel arrays _elem/_adj of a corner container are written in lock-step (same block), the only accepted "
-              "one-sided idiom being 'reset A, refill A'",
-    "C02-K1": "every edge stored by RawMeshData is keyify-normalised (low index first)",
-    "C02-P2": "completed edges / faces are appended under `key not in S` together with `S.add(key)` in the same block, S seeded from the declared elements",
+    "C02-P1": "the parallel arrays _elem/_adj of a corner container stay in step: every mutator of the container class and every generator "
+              "leaves them with the same length (the only accepted one-sided idiom being 'reset A, refill A')",
+    "C02-K1": "every edge stored by RawMeshData is normalised (low index first)",
+    "C02-P2": "completion adds every side of every face (every face of every cell) exactly once, and none that is already declared",
     "C02-O1": "an edge is kept iff a != b and 0 <= a < N and 0 <= b < N with N the number of vertices",
-    "C02-F1": "in the filtered rebuild the compacted index advances once per kept edge, after the attribute values were copied under it",
-    "C02-D1": "class dispatch is total over {0,1,2,3} and agrees with the dimension each class passes to Mesh.__init__; containers are exposed by the same thresholds",
+    "C02-F1": "when invalid edges are dropped the survivors are numbered 0,1,2,.. in order and keep their attribute values under the new index",
+    "C02-D1": "class dispatch is total over {0,1,2,3}, uses max(requested, dimensionality of the prepared data) and agrees with the dimension each "
+              "class passes to Mesh.__init__; containers are exposed by the same thresholds",
     "C02-H1": "hard-edge flagging must not run again on data that already went through prepare() (only declared edges are hard; rebuilding changes nothing)",
-    "C02-M1": "prepare(): prepared flag tested first and set last; face completion before edge completion before normalisation / corner generation",
+    "C02-W1": "RawMeshData(mesh) hands over every container the mesh has (with its content) and empty ones for those it lacks",
+    "C02-M1": "prepare(): nothing happens on prepared data; face completion before edge completion before normalisation / corner generation; flag set last",
     "C02-A1": "from_arrays: vertices are padded to exactly three columns (other widths rejected), every index array is range-checked against "
-              "the vertex count and appended to the container of its own kind, under `is not None`",
+              "the vertex count and appended to the container of its own kind",
     "C02-C1": "corner generation emits one record (element, owner) per incidence in element order",
 }
 
@@ -44,676 +59,1006 @@ def run(ctx):
     uses = 0
     for m in mods:
         uses += rows.check_module(ctx, "C02-R1", m)
-    ctx.require_count("C02-R1 row uses", uses, 60)
-    p1_parallel_arrays(ctx)
-    k1_edges_keyified(ctx)
-    p2_check_then_add(ctx)
-    o1_is_valid(ctx)
-    f1_compaction(ctx)
-    d1_dispatch(ctx)
-    h1_hard_edges(ctx)
-    h2_hard_edges_typestate(ctx)
-    m1_prepare_order(ctx)
-    c1_corner_generation(ctx)
-    a1_from_arrays(ctx)
+    if uses < 25:
+        ctx.undecided("C02-R1", ctx.site(MD, RMD), "index rows: fewer than 25 uses found in the construction modules",
+                      f"{uses} row uses: the row matcher may have lost its sites")
+    hard_edges_rule(ctx, "C02-H1")
+    completion_rule(ctx)
+    prepare_edges_rule(ctx)
+    corner_rules(ctx)
+    container_class_rule(ctx)
+    wrap_rule(ctx)
+    lockstep_rule(ctx)
+    dispatch_rule(ctx)
+    prepare_order_rule(ctx)
+    from_arrays_rule(ctx)
 
 
-# ---------------------------------------------------------------------------- P1
+# ------------------------------------------------------------------------------------------------ helpers
+def step_site(ctx, q):
+    """site of a private step of prepare() when it still exists under that name, else the site of prepare() itself"""
+    repo = ctx.repo
+    name = RMD + "." + q
+    if repo.has_func(MD, name):
+        fn = repo.func(MD, name)
+    else:
+        fn = repo.func(MD, RMD + ".prepare")
+    return fn, ctx.site(MD, fn)
+
+
+def step(w, raw, q):
+    """run one step of the preparation on the template: the private method when it exists, the whole prepare() otherwise (a step
+    that was renamed / merged into another one is still exercised through the public entry point)"""
+    m = w.ev.find_method(raw, q)
+    if m is None:
+        m = w.method(raw, "prepare")
+    pin_config(w)
+    w.ev.call(m, [], {})
+
+
+def pin_config(w):
+    w.ev.modconst[("mouette.config", "complete_faces_from_cells")] = True
+    w.ev.modconst[("mouette.config", "complete_edges_from_faces")] = True
+
+
+def mk_raw(w, nv, edges=(), faces=(), cells=(), **kw):
+    """template data with concrete (small integer) vertex indices and `nv` symbolic positions"""
+    verts = w.container("vertices", [w.pos(i) for i in range(nv)])
+    return w.raw(edges=edges, faces=faces, cells=cells, vertices=verts, **kw)
+
+
+def undecide_raises(outs, label):
+    """an exception on a valid template is outside what the rules can judge"""
+    for o in outs:
+        if o.unknown is None and o.raised is not None:
+            o.unknown = Unknown(f"{label} raises on the template: {o.raised.value!r}")
+
+
+def report_suspects(ctx, site, outs):
+    """constructs met during the evaluation whose result depends on the representation of index values (R-ROW)"""
+    seen = set()
+    for o in outs or []:
+        for what, node in getattr(o.ev, "suspects", []):
+            if not what.startswith("identity"):
+                continue
+            src = au.src(node) if node is not None else what
+            if src not in seen:
+                seen.add(src)
+                ctx.fail("C02-R1", site, f"`{src}`: {what}",
+                         "behaviour depends on whether index rows are lists, tuples or numpy rows: `is` compares object identity; small python "
+                         "ints are cached, numpy scalars and large ints are not")
+
+
+def rows_(w, c):
+    return [tuple(x) if isinstance(x, (list, tuple)) else x for x in w.data(c)]
+
+
+def fmt(x):
+    return M.fmt_face(x) if isinstance(x, (tuple, list)) else repr(x)
+
+
+def sides_of(faces):
+    return {frozenset(e) for f in faces for e in M.directed_edges(f)}
+
+
+# ------------------------------------------------------------------------------------------------ H1 (also C13-H2)
+def hard_edges_rule(ctx, RULE="C02-H1"):
+    fn, site = step_site(ctx, "_complete_edges_from_faces")
+    label = "edge completion / hard-edge flags"
+    problems, allouts = [], []
+    F = [(0, 1, 2), (2, 1, 3)]
+    for sc in ("first", "nodecl", "again", "again-nodecl"):
+        def build(w, sc=sc):
+            if sc == "first":
+                raw = mk_raw(w, 4, edges=[(1, 0), (2, 3)], faces=F)
+            elif sc == "nodecl":
+                raw = mk_raw(w, 4, edges=[], faces=F)
+            else:
+                # data that was prepared before (edges sorted, attribute present) and then edited: side 2-3 is not an edge yet
+                raw = mk_raw(w, 4, edges=[(0, 1), (1, 2), (0, 2), (1, 3)], faces=F)
+                w.attribute(raw.fields["edges"], "hard_edges", {0: True} if sc == "again" else {})
+            n0 = len(w.data(raw.fields["edges"]))
+            step(w, raw, "_complete_edges_from_faces")
+            return w, raw, n0
+        outs = M.run_paths(ctx, RULE, site, f"{label} ({sc})", build, both_orders=False)
+        if outs is None:
+            return
+        undecide_raises(outs, label)
+        allouts += outs
+        for o in M.decided(outs):
+            w, raw, n0 = o.value
+            edges = raw.fields["edges"]
+            he = w.attributes(edges).get("hard_edges")
+            n1 = len(w.data(edges))
+            if isinstance(he, AttrModel) and getattr(he, "dense", False):
+                o.unknown = Unknown("the hard_edges attribute is created dense (array storage): its default values are not modelled")
+                continue
+            if sc.startswith("again"):
+                if n1 == n0:
+                    problems.append((RULE, "edges of faces are no longer completed on data that was already prepared (the 'hard_edges' attribute exists)",
+                                     "re-preparing a mesh that was edited in place (triangulated quads, fan splits) must still add the new sides as edges; "
+                                     "otherwise faces have sides that are not edges"))
+                want = {0: True} if sc == "again" else {}
+                if isinstance(he, AttrModel) and {k: v for k, v in he.data.items() if v is True or v == 1} != want:
+                    problems.append((RULE, "every current edge is flagged hard each time prepare() runs, also on data wrapped from an already built mesh",
+                                     "RawMeshData(mesh) starts unprepared and shares the mesh's containers: re-preparing (every editing block of "
+                                     "subdivision.py does) marks the edges generated from faces as hard edges; only edges the caller declared may be "
+                                     f"flagged and building again must change nothing (flags after re-preparation: {sorted(he.data)})"))
+                continue
+            if not isinstance(he, AttrModel):
+                problems.append((RULE, "_complete_edges_from_faces can finish without the 'hard_edges' attribute existing",
+                                 "the attribute is what marks data as already prepared: if a first preparation can leave it absent (e.g. when no edge was "
+                                 "declared), the next preparation of the built mesh flags every edge generated from faces as a hard edge"))
+                continue
+            flagged = sorted(k for k, v in he.data.items() if v is True or v == 1)
+            if flagged != list(range(n0)):
+                problems.append((RULE, "hard-edge flagging does not range over exactly the edges present before completion",
+                                 f"{n0} edge(s) were declared, {n1 - n0} generated from faces; flagged indices: {flagged} - edges generated from faces "
+                                 "must not be flagged, declared ones must"))
+    M.settle(ctx, site, allouts, problems, [RULE], "hard-edge flags on first build / no declared edge / re-preparation", label)
+
+
+# ------------------------------------------------------------------------------------------------ P2 + K1: completion
+HEX_SETS = [(0, 1, 2, 3), (4, 5, 6, 7), (0, 3, 7, 4), (0, 1, 5, 4), (1, 2, 6, 5), (2, 3, 7, 6)]
+TET_TABLE = ((1, 3, 2), (0, 2, 3), (3, 1, 0), (0, 1, 2))
+
+
+def completion_rule(ctx):
+    # ---- edges from faces
+    fn, site = step_site(ctx, "_complete_edges_from_faces")
+    label = "completion of edges from faces"
+    faces = [(3, 0, 5), (5, 0, 2, 6), (6, 2, 1, 4, 3)]          # triangle, quad, pentagon; sides 0-5 and 2-6 shared, indices in no particular order
+
+    def build(w):
+        raw = mk_raw(w, 7, edges=[(5, 0), (3, 4)], faces=faces)   # two declared edges (both are sides of faces), one not sorted
+        step(w, raw, "_complete_edges_from_faces")
+        return w, raw
+    outs = M.run_paths(ctx, "C02-P2", site, label, build, both_orders=False)
+    if outs is not None:
+        undecide_raises(outs, label)
+        problems = []
+        for o in M.decided(outs):
+            w, raw = o.value
+            Ed = rows_(w, raw.fields["edges"])
+            want = sides_of(faces)
+            got = Counter(frozenset(e) if isinstance(e, tuple) else e for e in Ed)
+            dup = [k for k, c in got.items() if c > 1]
+            if dup:
+                problems.append(("C02-P2", "_complete_edges_from_faces: an edge is stored twice",
+                                 f"edge {fmt(sorted(dup[0]))} appears {got[dup[0]]} times (declared, or shared by two faces): completion must "
+                                 "check the key set before adding and remember what it adds"))
+            missing, extra = want - set(got), set(got) - want
+            if missing:
+                problems.append(("C02-P2", "_complete_edges_from_faces: a side of a face does not become an edge",
+                                 f"missing {[fmt(sorted(m)) for m in missing]}: every side (f[i], f[i+1 mod n]) of every face must be an edge"))
+            if extra:
+                problems.append(("C02-P2", "_complete_edges_from_faces: an edge that is not a side of a face is generated",
+                                 f"extra {[fmt(sorted(m)) if isinstance(m, frozenset) else repr(m) for m in extra]}"))
+            for e in Ed[2:]:
+                if not (isinstance(e, tuple) and len(e) == 2 and e[0] < e[1]):
+                    problems.append(("C02-K1", "_complete_edges_from_faces: edge stored without keyify normalisation",
+                                     f"generated edge {fmt(e)}: every stored edge must have its low index first; edge_id() and the feature / border code "
+                                     "look edges up under sorted keys"))
+        M.settle(ctx, site, outs, problems, ["C02-P2", "C02-K1"], "every side once, low index first", label)
+    # ---- faces from cells
+    fn, site = step_site(ctx, "_complete_faces_from_cells")
+    label = "completion of faces from cells"
+    hexa = (3, 4, 5, 6, 7, 8, 9, 10)
+    cells = [(0, 1, 2, 3), (1, 0, 2, 4), (1, 0, 3, 11), hexa]     # three tetrahedra: faces 0-1-2 and 0-1-3 are shared; one hexahedron
+
+    def build(w):
+        # declared: faces 0 and 1 of the table of the first tetrahedron (rotated) and its face 3 (shared with the second cell)
+        raw = mk_raw(w, 12, faces=[(3, 2, 1), (2, 3, 0), (2, 0, 1)], cells=cells)
+        step(w, raw, "_complete_faces_from_cells")
+        return w, raw
+    outs = M.run_paths(ctx, "C02-P2", site, label, build, both_orders=False)
+    if outs is not None:
+        undecide_raises(outs, label)
+        problems = []
+        for o in M.decided(outs):
+            w, raw = o.value
+            F = rows_(w, raw.fields["faces"])
+            got = Counter(frozenset(f) for f in F)
+            want = set()
+            for c in cells[:3]:
+                for i in range(4):
+                    want.add(frozenset(c[:i] + c[i + 1:]))
+            for q in HEX_SETS:
+                want.add(frozenset(hexa[i] for i in q))
+            dup = [k for k, c in got.items() if c > 1]
+            if dup:
+                problems.append(("C02-P2", "_complete_faces_from_cells: a face is stored twice",
+                                 f"face {fmt(sorted(dup[0]))} appears {got[dup[0]]} times: a face declared by the caller or shared by two cells "
+                                 "must be stored once"))
+            if set(got) != want:
+                miss, extra = want - set(got), set(got) - want
+                problems.append(("C02-P2", "_complete_faces_from_cells: the faces are not the four triangles of each tetrahedron and the six quads of each hexahedron",
+                                 f"missing {[fmt(sorted(m)) for m in miss]}, unexpected {[fmt(sorted(m)) for m in extra]}"))
+            bad = [f for f in F if len(set(f)) != len(f)]
+            if bad:
+                problems.append(("C02-P2", "_complete_faces_from_cells: a generated face repeats a vertex", fmt(bad[0])))
+
+            def cyc(t):
+                t = list(t)
+                k = t.index(min(t))
+                a = tuple(t[k:] + t[:k])
+                return min(a, (a[0],) + tuple(reversed(a[1:])))
+            canon = {frozenset(hexa[i] for i in q): cyc([hexa[i] for i in q]) for q in HEX_SETS}
+            for f in F:
+                if frozenset(f) in canon and cyc(f) != canon[frozenset(f)]:
+                    problems.append(("C02-P2", "_complete_faces_from_cells: a quad of a hexahedron does not go round its four vertices",
+                                     f"face {fmt(f)}: consecutive vertices must be joined by an edge of the cell (expected the cycle {fmt(canon[frozenset(f)])})"))
+        M.settle(ctx, site, outs, problems, ["C02-P2"], "every cell face once", label)
+
+
+# ------------------------------------------------------------------------------------------------ O1 + F1 + K1: normalisation of the edges
+def prepare_edges_rule(ctx):
+    fn, site = step_site(ctx, "_prepare_edges")
+    label = "normalisation of the edges"
+    # ---- O1: one edge (a, b) on a grid of orderings of a, b, 0, N  (+ a valid witness edge so that both branches are exercised)
+    problems, allouts = [], []
+    grid = [(a, b, N) for N in (1, 2, 4) for a in (-1, 0, 1, 2, 3, 4, 5) for b in (-1, 0, 1, 2, 3, 4, 5)
+            if a <= N + 1 and b <= N + 1]
+    bad_o1 = []
+    for with_witness in (False, True):
+        for a, b, N in grid:
+            if with_witness and N < 2:
+                continue
+
+            def build(w, a=a, b=b, N=N, ww=with_witness):
+                raw = mk_raw(w, N, [(a, b)] + ([(1, 0), (0, 0)] if ww else []))
+                step(w, raw, "_prepare_edges")
+                return w, raw
+            outs = M.run_paths(ctx, "C02-O1", site, label, build, both_orders=False)
+            if outs is None:
+                return
+            undecide_raises(outs, label)
+            allouts += [o for o in outs if o.unknown is not None][:1]
+            for o in M.decided(outs):
+                w, raw = o.value
+                Ed = rows_(w, raw.fields["edges"])
+                given = [(a, b)] + ([(1, 0), (0, 0)] if with_witness else [])
+                want = Counter(frozenset(e) for e in given if e[0] != e[1] and 0 <= e[0] < N and 0 <= e[1] < N)
+                got = Counter(frozenset(e) for e in Ed)
+                if got != want:
+                    bad_o1.append((a, b, N, got[frozenset((a, b))] > want[frozenset((a, b))] or (a == b and got[frozenset((a,))] > 0)))
+                    continue
+                for e in Ed:
+                    if not (len(e) == 2 and e[0] < e[1]):
+                        problems.append(("C02-K1", "_prepare_edges: edge stored without keyify normalisation",
+                                         f"edge {fmt(e)} after normalisation: every stored edge must have its low index first; edge_id() and the "
+                                         "feature / border code look edges up under sorted keys"))
+    if bad_o1:
+        a, b, N, kept = bad_o1[0]
+        problems.append(("C02-O1", "an edge is not kept exactly when `a != b and 0 <= a < N and 0 <= b < N`",
+                         f"with N = {N} vertices the declared edge ({a},{b}) is {'kept' if kept else 'dropped'}: a self-loop or out-of-range edge would be "
+                         f"kept (or a valid edge dropped); {len(bad_o1)} of the evaluated orderings differ"))
+    # ---- F1: compaction of indices and attribute values
+    def build(w):
+        raw = mk_raw(w, 3, [(1, 1), (2, 0), (5, 0), (1, 2), (0, 0), (0, 1)])
+        W = {i: Opaque(("value", i)) for i in (0, 1, 2, 5)}
+        w.attribute(raw.fields["edges"], "weight", dict(W), typ="float", elemsize=1)
+        w.attribute(raw.fields["edges"], "hard_edges", {1: True, 2: True, 5: True}, typ="bool")
+        step(w, raw, "_prepare_edges")
+        return w, raw, W
+    outs = M.run_paths(ctx, "C02-F1", site, label, build, both_orders=False)
+    if outs is None:
+        return
+    undecide_raises(outs, label)
+    allouts += outs
+    for o in M.decided(outs):
+        w, raw, W = o.value
+        Ed = rows_(w, raw.fields["edges"])
+        if Ed != [(0, 2), (1, 2), (0, 1)]:
+            if Counter(map(frozenset, Ed)) == Counter(map(frozenset, [(0, 2), (1, 2), (0, 1)])) and all(e[0] < e[1] for e in Ed):
+                problems.append(("C02-F1", "surviving edges are not kept in their original order", f"edges after filtering: {Ed}"))
+            continue      # kept set wrong: reported by O1 / K1 above
+        attrs = w.attributes(raw.fields["edges"])
+        wa, ha = attrs.get("weight"), attrs.get("hard_edges")
+        if not isinstance(wa, AttrModel) or not isinstance(ha, AttrModel):
+            problems.append(("C02-F1", "an attribute of the edges is lost when invalid edges are dropped",
+                             f"attributes after filtering: {sorted(attrs)}: surviving edges keep their attribute values"))
+            continue
+        want_w = {0: W[1], 2: W[5]}
+        want_h = {0: True, 2: True}
+        if wa.data != want_w or {k: v for k, v in ha.data.items() if v is True or v == 1} != want_h:
+            problems.append(("C02-F1", "surviving attribute values are not copied as new[n] = old[ie] (ie present in old) with n the number of edges kept before",
+                             f"edges 1, 3, 5 of 6 survive as 0, 1, 2; attribute holding values at old indices 0,1,2,5 ends with indices {sorted(wa.data)} "
+                             f"(values of old {[k for v in wa.data.values() for k, x in W.items() if x == v]}), flags {sorted(ha.data)}: an edge that survives "
+                             "the filter keeps its attribute values under its new index; dropped edges lose theirs"))
+    report_suspects(ctx, site, allouts)
+    M.settle(ctx, site, allouts, problems, ["C02-O1", "C02-F1", "C02-K1"], "validity on a grid of orderings; compaction of attribute values", label)
+
+
+# ------------------------------------------------------------------------------------------------ C1 + P1: corner generation
+def _corner_state(w, c):
+    return list(w.elem(c)), list(w.adj(c))
+
+
+def corner_rules(ctx):
+    specs = [("_generate_face_corners", "face_corners", "faces"), ("_generate_cell_corners", "cell_corners", "cells")]
+    for meth, cont, elems in specs:
+        fn, site = step_site(ctx, meth)
+        problems, allouts = [], []
+        for sc in ("empty", "stale", "complete", "owners-missing"):
+            if sc == "owners-missing" and cont != "cell_corners":
+                continue
+
+            def build(w, sc=sc, cont=cont, elems=elems):
+                rs = [(0, 2, 1), (1, 2, 3, 4)] if elems == "faces" else [(0, 2, 1, 3), (2, 1, 3, 4, 5)]
+                el = [v for r in rs for v in r]
+                ow = [i for i, r in enumerate(rs) for _ in r]
+                pre = {"empty": ((), ()), "stale": (el[:len(rs[0])], ow[:len(rs[0])]), "complete": (el, ow), "owners-missing": (el, ())}[sc]
+                raw = mk_raw(w, 6, **{elems: rs, cont: pre})
+                step(w, raw, meth)
+                return w, raw, el, ow
+            label = f"{meth} ({sc})"
+            outs = M.run_paths(ctx, "C02-C1", site, label, build, both_orders=False)
+            if outs is None:
+                break
+            undecide_raises(outs, label)
+            allouts += outs
+            for o in M.decided(outs):
+                w, raw, el, ow = o.value
+                ge, ga = _corner_state(w, raw.fields[cont])
+                if sc == "stale" and cont == "cell_corners":
+                    continue   # cell corners are only regenerated when one of the two arrays is empty (documented behaviour of the library)
+                if len(ge) != len(ga):
+                    problems.append(("C02-P1", f"{meth}: the parallel arrays of {cont} end with different lengths",
+                                     f"case `{sc}`: {len(ge)} element(s) but {len(ga)} owner(s): a corner record must receive its element and its owner "
+                                     "together; corner i would pair an element with the wrong owner"))
+                elif (ge, ga) != (el, ow):
+                    what = {"empty": "no corner exists yet", "stale": "the existing records do not cover the " + elems,
+                            "complete": "the records are already complete", "owners-missing": "only the owners are missing"}[sc]
+                    problems.append(("C02-C1", f"{meth}: corners are not one record (vertex, owner) per incidence in element order",
+                                     f"case `{sc}` ({what}): elements {ge}, owners {ga}; expected {el} / {ow}"))
+        M.settle(ctx, site, allouts, problems, ["C02-C1", "C02-P1"], f"{meth}: one record per incidence", meth)
+    # ---- cell faces
+    meth = "_generate_cell_faces"
+    fn, site = step_site(ctx, meth)
+    problems = []
+    hexa = (3, 4, 5, 6, 7, 8, 9, 10)
+    cells = [(0, 1, 2, 3), (1, 0, 2, 4), hexa]
+    faces = []
+    for c in cells[:2]:
+        for f in TET_TABLE:
+            t = tuple(c[i] for i in f)
+            if frozenset(t) not in [frozenset(x) for x in faces]:
+                faces.append(t)
+    for q in HEX_SETS:
+        faces.append(tuple(hexa[i] for i in q))
+    faces = faces[::-1]
+
+    def build(w):
+        raw = mk_raw(w, 11, faces=faces, cells=cells)
+        step(w, raw, meth)
+        return w, raw
+    outs = M.run_paths(ctx, "C02-C1", site, meth, build, both_orders=False)
+    if outs is not None:
+        undecide_raises(outs, meth)
+        for o in M.decided(outs):
+            w, raw = o.value
+            fcs = rows_(w, raw.fields["faces"])
+            ge, ga = _corner_state(w, raw.fields["cell_faces"])
+            if len(ge) != len(ga):
+                problems.append(("C02-P1", f"{meth}: the parallel arrays of cell_faces end with different lengths",
+                                 f"{len(ge)} face record(s) but {len(ga)} owner(s): cell_faces must hold one (face, cell) record per cell-face incidence; "
+                                 "without the owner, cell_faces.adj() and attributes on cell faces are unusable"))
+                continue
+            want_adj = [i for i, c in enumerate(cells) for _ in range(4 if len(c) == 4 else 6)]
+            okf = ga == want_adj
+            for fi, ci in zip(ge, ga):
+                if not (isinstance(fi, int) and 0 <= fi < len(fcs) and isinstance(ci, int) and 0 <= ci < len(cells)
+                        and frozenset(fcs[fi]) <= frozenset(cells[ci])):
+                    okf = False
+            per_cell = {i: [fi for fi, ci in zip(ge, ga) if ci == i] for i in range(len(cells))}
+            if okf and any(len(set(v)) != len(v) for v in per_cell.values()):
+                okf = False
+            if not okf:
+                problems.append(("C02-C1", f"{meth}: the records are not one (face, cell) pair per cell-face incidence in cell order",
+                                 f"faces {ge}, owners {ga}: each cell must own the indices of its own 4 (tetrahedron) / 6 (hexahedron) faces"))
+                continue
+            for ci, c in enumerate(cells):
+                if len(c) == 4 and any(c[k] in fcs[fi] for k, fi in enumerate(per_cell[ci])):
+                    problems.append(("C02-C1", f"{meth}: the i-th face record of a tetrahedron is not the face opposite to its i-th vertex",
+                                     f"cell {fmt(c)} records faces {[fmt(fcs[fi]) for fi in per_cell[ci]]}: incidences must come in element order "
+                                     "(face i does not contain vertex i)"))
+        M.settle(ctx, site, outs, problems, ["C02-C1", "C02-P1"], f"{meth}: one record per cell-face incidence", meth)
+
+
+# ------------------------------------------------------------------------------------------------ P1 on the container class itself
+def container_class_rule(ctx):
+    repo = ctx.repo
+    cls = repo.cls(DC, "CornerDataContainer")
+    site = ctx.site(DC, "CornerDataContainer")
+    problems, allouts = [], []
+    ops = [("append", lambda w, c, o: [Opaque("e"), Opaque("a")]),
+           ("__iadd__", lambda w, c, o: [SList(items=[(Opaque("e1"), Opaque("a1")), (Opaque("e2"), Opaque("a2"))])]),
+           ("__iadd__", lambda w, c, o: [o]),
+           ("clear", lambda w, c, o: [])]
+    for name, mk in ops:
+        def build(w, name=name, mk=mk):
+            c = w.corners("c", [1, 2], [7, 8])
+            o = w.corners("o", [3], [9])
+            args = mk(w, c, o)
+            m = w.ev.find_method(c, name)
+            if m is None:
+                return None
+            w.ev.call(m, args, {})
+            return w, c, args
+        outs = M.run_paths(ctx, "C02-P1", site, f"CornerDataContainer.{name}", build, both_orders=False)
+        if outs is None:
+            continue
+        undecide_raises(outs, f"CornerDataContainer.{name}")
+        allouts += outs
+        for o in M.decided(outs):
+            if o.value is None:
+                continue
+            w, c, args = o.value
+            ge, ga = _corner_state(w, c)
+            if len(ge) != len(ga):
+                problems.append(("C02-P1", f"CornerDataContainer.{name}: {'_elem grows without _adj' if len(ge) > len(ga) else '_adj grows without _elem'} growing with it",
+                                 f"after {name} on a container of 2 corners: {len(ge)} element(s), {len(ga)} owner(s): a corner record must receive its "
+                                 "element and its owner together"))
+            else:
+                if name == "append":
+                    want = ([1, 2, args[0]], [7, 8, args[1]])
+                elif name == "clear":
+                    want = ([], [])
+                elif isinstance(args[0], Obj):
+                    want = ([1, 2, 3], [7, 8, 9])
+                else:
+                    want = ([1, 2] + [p[0] for p in args[0]], [7, 8] + [p[1] for p in args[0]])
+                if (ge, ga) != want:
+                    problems.append(("C02-P1", f"CornerDataContainer.{name} does not store each (element, owner) pair in the two parallel arrays",
+                                     f"elements {ge}, owners {ga}; expected {want[0]} / {want[1]}"))
+    M.settle(ctx, site, allouts, problems, ["C02-P1"], "mutators of CornerDataContainer keep _elem / _adj in step", "CornerDataContainer")
+
+
+# ------------------------------------------------------------------------------------------------ W1: wrapping a built mesh, extending a container
+def wrap_rule(ctx):
+    repo = ctx.repo
+    init = repo.func(MD, RMD + ".__init__")
+    site = ctx.site(MD, init)
+    problems, allouts = [], []
+    kinds = {"point cloud": ("vertices",), "polyline": ("vertices", "edges"), "surface": ("vertices", "edges", "faces", "face_corners"),
+             "volume": ("vertices", "edges", "faces", "face_corners", "cells", "cell_corners", "cell_faces")}
+    ALL = kinds["volume"]
+    for kind, names in kinds.items():
+        def build(w, names=names):
+            mesh = w.stub_object("BuiltMesh", __closed__=True)
+            content = {"vertices": [w.pos(i) for i in range(4)], "edges": [(0, 1), (1, 2)], "faces": [(0, 1, 2)], "cells": [(0, 1, 2, 3)]}
+            for n in names:
+                if n.endswith(("corners", "cell_faces")):
+                    mesh.fields[n] = w.corners(n, [0, 1, 2], [0, 0, 0])
+                else:
+                    mesh.fields[n] = w.container(n, content[n])
+            raw = w.ev.call(w.cls(M.MD, RMD), [mesh], {})
+            return w, mesh, raw
+        outs = M.run_paths(ctx, "C02-W1", site, f"RawMeshData(mesh) on a {kind}", build, both_orders=False)
+        if outs is None:
+            continue
+        undecide_raises(outs, "RawMeshData(mesh)")
+        allouts += outs
+        for o in M.decided(outs):
+            w, mesh, raw = o.value
+            for n in ALL:
+                c = raw.fields.get(n) if isinstance(raw, Obj) else None
+                if not isinstance(c, Obj):
+                    problems.append(("C02-W1", f"RawMeshData(mesh) has no container `{n}`", f"wrapping a {kind}"))
+                    continue
+                corner = n.endswith(("corners", "cell_faces"))
+                try:
+                    got = (list(w.elem(c)), list(w.adj(c))) if corner else list(w.data(c))
+                except Unknown:
+                    continue
+                if n in names:
+                    src = mesh.fields[n]
+                    want_ = (list(w.elem(src)), list(w.adj(src))) if corner else list(w.data(src))
+                    if got != want_:
+                        problems.append(("C02-W1", f"RawMeshData(mesh) does not take the `{n}` of the mesh it wraps",
+                                         f"wrapping a {kind}: `{n}` holds {len(got[0]) if corner else len(got)} element(s) instead of "
+                                         f"{len(want_[0]) if corner else len(want_)}: building again from an already built mesh must change nothing"))
+                elif (got != ([], []) if corner else got != []):
+                    problems.append(("C02-W1", f"RawMeshData(mesh) fills `{n}` although the mesh has no such container", f"wrapping a {kind}"))
+    # extending a container by another one copies the elements: the two containers stay independent
+    def build2(w):
+        a = w.container("a", [])
+        b = w.container("b", [(0, 1), (1, 2)])
+        m = w.ev.find_method(a, "__iadd__")
+        r = w.ev.call(m, [b], {})
+        r = r if isinstance(r, Obj) else a
+        w.ev.call(w.method(r, "append"), [(2, 3)], {})
+        c = w.container("c", [(5, 6)])
+        r2 = w.ev.call(w.ev.find_method(c, "__iadd__"), [SList(items=[(7, 8)])], {})
+        return w, r, b, (r2 if isinstance(r2, Obj) else c)
+    s2 = ctx.site(DC, "DataContainer")
+    outs = M.run_paths(ctx, "C02-W1", s2, "DataContainer += DataContainer", build2, both_orders=False)
+    if outs is not None:
+        undecide_raises(outs, "DataContainer.__iadd__")
+        for o in M.decided(outs):
+            w, a, b, c = o.value
+            if rows_(w, a) != [(0, 1), (1, 2), (2, 3)] or rows_(w, c) != [(5, 6), (7, 8)]:
+                problems.append(("C02-W1", "DataContainer.__iadd__ does not append the elements of the other collection in order",
+                                 f"[] += [(0,1),(1,2)] then append (2,3) gives {rows_(w, a)}; [(5,6)] += [(7,8)] gives {rows_(w, c)}"))
+            if rows_(w, b) != [(0, 1), (1, 2)]:
+                problems.append(("C02-W1", "DataContainer.__iadd__ makes the receiver share the list of the container it is extended with",
+                                 f"appending to the receiver afterwards changes the other container too ({rows_(w, b)}): a refinement that builds new "
+                                 "data would write into the containers of the input mesh"))
+        allouts += outs
+    M.settle(ctx, site, allouts, problems, ["C02-W1"], "wrapping a built mesh / extending a container", "RawMeshData(mesh)")
+
+
+# ------------------------------------------------------------------------------------------------ P1: lock-step writes in the other functions
 SIDES = ("_elem", "_adj")
 
 
 def _side_write(st):
-    """Classify a statement as a write to X._elem / X._adj: returns list of (base_src, side, kind, value)."""
+    """writes of a simple statement to X._elem / X._adj: [(base source, side, kind)]  kind in rebind / fill"""
     out = []
     if isinstance(st, (ast.Assign, ast.AnnAssign)):
         for t in au.assign_targets(st):
-            if isinstance(t, ast.Attribute) and t.attr in SIDES:
-                out.append((au.src(t.value), t.attr, "rebind", st.value))
+            for x in (t.elts if isinstance(t, (ast.Tuple, ast.List)) else [t]):
+                if isinstance(x, ast.Attribute) and x.attr in SIDES:
+                    out.append((au.src(x.value), x.attr, "rebind"))
     elif isinstance(st, ast.AugAssign):
         t = st.target
         if isinstance(t, ast.Attribute) and t.attr in SIDES:
-            out.append((au.src(t.value), t.attr, "fill", st.value))
+            out.append((au.src(t.value), t.attr, "fill"))
     elif isinstance(st, ast.Expr) and isinstance(st.value, ast.Call):
         c = st.value
         if isinstance(c.func, ast.Attribute) and c.func.attr in ("append", "extend", "insert") \
                 and isinstance(c.func.value, ast.Attribute) and c.func.value.attr in SIDES:
-            out.append((au.src(c.func.value.value), c.func.value.attr, "fill", c))
+            out.append((au.src(c.func.value.value), c.func.value.attr, "fill"))
     return out
 
 
-def _is_empty_list(v):
-    return (isinstance(v, ast.List) and not v.elts) or (isinstance(v, ast.Call) and au.call_tail(v) == "list" and not v.args)
+def _if_paths(body, limit=512):
+    """paths through a body forking on `if` (and try handlers) only; loop / with bodies are part of the path.  Each path is the list of
+    simple statements executed, ending at return / raise."""
+    paths = [([], False)]
+    for st in body:
+        new = []
+        for stmts, done in paths:
+            if done:
+                new.append((stmts, done))
+                continue
+            if isinstance(st, ast.If):
+                for br in (st.body, st.orelse):
+                    for s2, d2 in _if_paths(br, limit):
+                        new.append((stmts + s2, d2))
+            elif isinstance(st, (ast.For, ast.AsyncFor, ast.While, ast.With, ast.AsyncWith)):
+                for s2, d2 in _if_paths(st.body, limit):
+                    new.append((stmts + s2, False if isinstance(st, (ast.For, ast.AsyncFor, ast.While)) else d2))
+            elif isinstance(st, ast.Try):
+                for s2, d2 in _if_paths(st.body + st.orelse + st.finalbody, limit):
+                    new.append((stmts + s2, d2))
+            elif isinstance(st, (ast.Return, ast.Raise)):
+                new.append((stmts + [st], True))
+            elif isinstance(st, (ast.Continue, ast.Break)):
+                new.append((stmts, True))
+            elif isinstance(st, (ast.FunctionDef, ast.AsyncFunctionDef, ast.ClassDef)):
+                new.append((stmts, False))
+            else:
+                new.append((stmts + [st], False))
+        paths = new
+        if len(paths) > limit:
+            raise Unknown("too many paths")
+    return paths
 
 
-def p1_parallel_arrays(ctx):
+def lockstep_rule(ctx):
     repo = ctx.repo
     mods = [MD, DC, MESH] if ctx.tier == "quick" else sorted(m[len("mouette."):] for m in repo.modules if m != "mouette")
-    n_sites = 0
     for modname in mods:
         mod = repo.module(modname)
         for q, fn in sorted(mod.funcs.items()):
-            writes = []  # (stmt, base, side, kind, value)
-            for st in au.stmts(fn.body):
-                for w in _side_write(st):
-                    writes.append((st,) + w)
-            if not writes:
+            if (modname == MD and q.startswith(RMD + "._generate_")) or (modname == DC and q.startswith("CornerDataContainer.")):
+                continue        # decided by evaluation (corner_rules / container_class_rule)
+            if not any(_side_write(st) for st in au.stmts(fn.body)):
                 continue
-            for st, base, side, kind, val in writes:
-                n_sites += 1
-                other = SIDES[1 - SIDES.index(side)]
-                blk, owner = au.enclosing_block(st)
-                same_block = [w for w in writes if w[1] == base and w[2] == other and w[3] == kind
-                              and au.enclosing_block(w[0])[0] is blk]
-                site = ctx.site(mod.name, fn, st)
-                if same_block:
-                    ctx.ok("C02-P1", site, f"{base}.{side} and {base}.{other} written in the same block")
-                    continue
-                if kind == "rebind":
-                    # one-sided reset: must be an empty list and be refilled (same side only) below in this block
-                    following = blk[[id(x) for x in blk].index(id(st)) + 1:] if blk else []
-                    fills = [w for s in following for s2 in [s] + list(au.stmts(getattr(s, "body", []) or []))
-                             for w in _side_write(s2) if w[0] == base and w[2] == "fill"]
-                    ok = _is_empty_list(val) and fills and all(w[1] == side for w in fills)
-                    ctx.check(ok, "C02-P1", site,
-                              f"{fn.name}: {base}.{side} is reset without {base}.{other}, and the refill does not target {side} only",
-                              f"after `{au.src(st)}` the two parallel arrays of the corner container get out of step "
-                              f"(refilled sides: {sorted({w[1] for w in fills}) or 'none'}): corner i would pair an element with the wrong owner",
-                              note="reset A / refill A idiom")
-                else:
-                    # one-sided fill: accepted only under a one-sided reset of the same side in an enclosing block
-                    ok = False
-                    for anc in au.ancestors(st):
-                        for fld in ("body", "orelse"):
-                            sub = getattr(anc, fld, None)
-                            if not isinstance(sub, list):
-                                continue
-                            resets = [w for s in sub for w in _side_write(s) if w[0] == base and w[2] == "rebind"]
-                            if resets and all(w[1] == side for w in resets) and any(_is_empty_list(w[3]) for w in resets):
-                                ok = True
-                        if isinstance(anc, (ast.FunctionDef,)):
-                            break
-                    ctx.check(ok, "C02-P1", site,
-                              f"{fn.name}: {base}.{side} grows without {base}.{other} growing in the same block",
-                              f"`{au.src(st)}`: a corner record must receive its element and its owner together; here one of the two "
-                              f"parallel arrays is extended alone (or only under an extra condition)",
-                              note="one-sided refill under one-sided reset")
-    ctx.require_count("C02-P1 parallel-array write sites", n_sites, 20)
-
-
-# ---------------------------------------------------------------------------- K1
-def k1_edges_keyified(ctx):
-    repo = ctx.repo
-    cls = repo.cls(MD, RMD)
-    n = 0
-    for fn in [st for st in cls.body if isinstance(st, ast.FunctionDef)]:
-        b = sym.Bindings(fn)
-
-        def is_edges(e):
-            if au.is_self_attr(e, "edges"):
-                return True
-            if isinstance(e, ast.Name):
-                d = b.reaching(e.id, where[0]) if where[0] is not None else None
-                if d is None and b.single(e.id):
-                    d = b.defs[e.id]
-                if isinstance(d, ast.Call) and au.call_tail(d) == "DataContainer":
-                    return any(k.arg == "id" and au.const(k.value) == "edges" for k in d.keywords)
-            return False
-        where = [None]
-        for st in au.stmts(fn.body):
-            where[0] = st
-            val = None
-            if isinstance(st, ast.Expr) and isinstance(st.value, ast.Call) and au.call_tail(st.value) == "append" \
-                    and isinstance(st.value.func, ast.Attribute) and is_edges(st.value.func.value) and st.value.args:
-                val = st.value.args[0]
-            elif isinstance(st, ast.Assign) and isinstance(st.targets[0], ast.Subscript) and is_edges(st.targets[0].value):
-                val = st.value
-            elif isinstance(st, ast.AugAssign) and is_edges(st.target):
-                val = st.value
-            if val is None:
+            site = ctx.site(mod.name, fn)
+            try:
+                paths = _if_paths(fn.body)
+            except Unknown:
+                ctx.undecided("C02-P1", site, f"{fn.name}: too many paths to decide the lock-step of the parallel arrays", "")
                 continue
-            n += 1
-            r = b.resolve(val, at=st)
-            ok = common.is_keyify(r)
-            if not ok and isinstance(r, (ast.ListComp, ast.GeneratorExp)):
-                ok = common.is_keyify(r.elt)
-            ctx.check(ok, "C02-K1", ctx.site(MD, fn, st),
-                      f"{fn.name}: edge stored without keyify normalisation (`{au.src(val)}`)",
-                      "every stored edge must have its low index first; edge_id() and the feature / border code look edges up "
-                      "under sorted keys", note="edge stored through keyify")
-    ctx.require_count("C02-K1 edge stores", n, 3)
+            bad = None
+            for stmts, _ in paths:
+                per = {}
+                for st in stmts:
+                    for base, side, kind in _side_write(st):
+                        per.setdefault(base, {}).setdefault(side, []).append(kind)
+                for base, d in per.items():
+                    a, b = d.get("_elem", []), d.get("_adj", [])
+                    if sorted(a) == sorted(b):
+                        continue
+                    one = a or b
+                    if (not a or not b) and one[0] == "rebind":
+                        continue      # reset A, refill A
+                    bad = bad or (base, a, b)
+            if bad and fn.name.startswith("_"):
+                # a private helper may legitimately own one side only (the caller pairs it with the helper of the other side)
+                ctx.undecided("C02-P1", site, f"{fn.name}: writes one of the two parallel arrays of a corner container alone",
+                              "a private helper: whether its caller keeps the two arrays in step is not decided here")
+            elif bad:
+                base, a, b = bad
+                ctx.fail("C02-P1", site, f"{fn.name}: {base}._elem and {base}._adj are not written in lock-step on every path",
+                         f"on some path _elem receives {a or 'nothing'} and _adj receives {b or 'nothing'}: a corner record must receive its element "
+                         "and its owner together (the only one-sided idiom accepted is `reset A, refill A`)")
+            else:
+                ctx.ok("C02-P1", site, f"{fn.name}: parallel arrays written in lock-step on every path")
 
 
-# ---------------------------------------------------------------------------- P2
-def p2_check_then_add(ctx):
-    repo = ctx.repo
-    for q, cont in [(RMD + "._complete_edges_from_faces", "edges"), (RMD + "._complete_faces_from_cells", "faces")]:
-        fn = repo.func(MD, q)
-        site = ctx.site(MD, fn)
-        b = sym.Bindings(fn)
-        apps = [c for c in au.calls(fn) if au.call_tail(c) == "append" and isinstance(c.func, ast.Attribute)
-                and au.is_self_attr(c.func.value, cont) and c.args]
-        if not apps:
-            ctx.fail("C02-P2", site, f"{fn.name}: no append to self.{cont}", "completion no longer adds the missing elements")
-            continue
-        for c in apps:
-            st = au.enclosing_stmt(c)
-            s = ctx.site(MD, fn, c)
-            x = c.args[0]
-            key = b.resolve(x, at=st)
-            gs = au.guards(c)
-            ok_guard = False
-            setname = None
-            for t, pol in gs:
-                if isinstance(t, ast.Compare) and len(t.ops) == 1 and isinstance(t.comparators[0], ast.Name):
-                    notin = isinstance(t.ops[0], ast.NotIn) and pol or isinstance(t.ops[0], ast.In) and not pol
-                    k = b.resolve(t.left, at=st)
-                    same_key = au.same(k, key) or (common.is_keyify(k) and len(k.args) == 1 and au.same(k.args[0], key))
-                    if notin and same_key and common.is_keyify(k):
-                        ok_guard, setname, keyexpr = True, t.comparators[0].id, k
-            ctx.check(ok_guard, "C02-P2", s, f"{fn.name}: append to self.{cont} is not guarded by `keyify(element) not in <set>`",
-                      "an element already present (declared, or shared by two faces / cells) would be stored twice")
-            if not ok_guard:
-                continue
-            blk, _ = au.enclosing_block(st)
-            adds = [c2 for s2 in blk for c2 in au.calls(s2) if au.call_tail(c2) == "add" and isinstance(c2.func, ast.Attribute)
-                    and isinstance(c2.func.value, ast.Name) and c2.func.value.id == setname and c2.args
-                    and au.same(b.resolve(c2.args[0], at=s2), keyexpr)]
-            ctx.check(bool(adds), "C02-P2", s, f"{fn.name}: the key of the appended element is not added to `{setname}` in the same block",
-                      "the second face / cell sharing the element would append it again")
-            # the set is seeded from the elements already in the container
-            seed = b.defs.get(setname)
-            seed_ok = False
-            if isinstance(seed, ast.Call) and au.call_tail(seed) == "set" and seed.args:
-                comp = seed.args[0]
-                if isinstance(comp, (ast.ListComp, ast.GeneratorExp, ast.SetComp)):
-                    seed_ok = common.is_keyify(comp.elt) and au.is_self_attr(comp.generators[0].iter, cont)
-            elif isinstance(seed, ast.SetComp):
-                seed_ok = common.is_keyify(seed.elt) and au.is_self_attr(seed.generators[0].iter, cont)
-            ctx.check(seed_ok, "C02-P2", s, f"{fn.name}: `{setname}` is not seeded with the keyified elements already in self.{cont}",
-                      "a declared element would be appended a second time by the completion")
-        if cont == "edges":
-            # every side (i, i+1 mod n) of every face
-            ok = False
-            for st in au.stmts(fn.body):
-                if isinstance(st, ast.For) and au.is_self_attr(st.iter, "faces") and isinstance(st.target, ast.Name):
-                    f = st.target.id
-                    for s2 in st.body:
-                        if isinstance(s2, ast.For) and isinstance(s2.iter, ast.Call) and au.call_tail(s2.iter) == "range" \
-                                and len(s2.iter.args) == 1 and isinstance(s2.target, ast.Name):
-                            i = s2.target.id
-                            nsrc = au.src(s2.iter.args[0])
-                            n_ok = au.src(b.resolve(s2.iter.args[0], at=s2)) == f"len({f})"
-                            for c in apps:
-                                if any(a is s2 for a in au.ancestors(c)):
-                                    k = b.resolve(c.args[0], at=au.enclosing_stmt(c), keep=(i, f, nsrc))
-                                    if common.is_keyify(k) and len(k.args) == 2:
-                                        offs = [sym.mod_offset(a.slice, i, nsrc) if isinstance(a, ast.Subscript)
-                                                and au.src(a.value) == f else None for a in k.args]
-                                        ok = n_ok and None not in offs and sorted(offs) == [0, 1] and not au.guards(s2, stop=fn)[1:]
-            ctx.check(ok, "C02-P2", site, "completed edges are not `keyify(f[i], f[(i+1)%len(f)])` for every i of every face",
-                      "every side of every face must become an edge exactly once")
-
-
-# ---------------------------------------------------------------------------- O1
-def o1_is_valid(ctx):
-    repo = ctx.repo
-    outer = repo.func(MD, RMD + "._prepare_edges")
-    q = RMD + "._prepare_edges.<locals>.is_valid"
-    site = ctx.site(MD, outer)
-    if not repo.has_func(MD, q):
-        ctx.fail("C02-O1", site, "validity predicate is_valid(a,b) of _prepare_edges not found", "")
-        return
-    fn = repo.func(MD, q)
-    ps = au.params(fn)
-    rets = [st for st in fn.body if isinstance(st, ast.Return)]
-    if len(ps) != 2 or len(rets) != 1 or rets[0].value is None:
-        ctx.fail("C02-O1", site, "is_valid is not a two-argument single-return predicate", "")
-        return
-    bo = sym.Bindings(outer)
-    ren = {ps[0]: "a", ps[1]: "b"}
-
-    def s(node):
-        if isinstance(node, ast.Name) and node.id in ren:
-            return ren[node.id]
-        if isinstance(node, ast.Name):
-            d = bo.defs.get(node.id)
-            if d is not None and au.src(d) == "len(self.vertices)":
-                return "N"
-        if au.src(node) == "len(self.vertices)":
-            return "N"
-        raise order.Unsupported(f"unknown operand {au.src(node)}")
-    try:
-        w, n = order.compare(rets[0].value, "a != b and 0 <= a and a < N and 0 <= b and b < N", s)
-    except order.Unsupported as e:
-        ctx.fail("C02-O1", ctx.site(MD, fn), "is_valid uses an operand other than its arguments and the vertex count", str(e))
-        return
-    ctx.check(w is None, "C02-O1", ctx.site(MD, fn),
-              f"is_valid is `{au.src(rets[0].value)}`, not `a != b and 0 <= a < N and 0 <= b < N`",
-              f"differs from the specification for {w}: a self-loop or out-of-range edge would be kept (or a valid edge dropped)",
-              note=f"{n} orderings")
-    # the filter and the rebuild use the same predicate
-    uses = [c for c in au.calls(outer) if isinstance(c.func, ast.Name) and c.func.id == "is_valid"]
-    ctx.check(len(uses) >= 2, "C02-O1", site, "the edge filter and the rebuild no longer share is_valid",
-              "the decision to rebuild and the decision to keep an edge must be the same predicate")
-
-
-# ---------------------------------------------------------------------------- F1
-def f1_compaction(ctx):
-    fn = ctx.repo.func(MD, RMD + "._prepare_edges")
-    site = ctx.site(MD, fn)
-    b = sym.Bindings(fn)
-    apps = [c for c in au.calls(fn) if au.call_tail(c) == "append" and isinstance(c.func, ast.Attribute)
-            and isinstance(c.func.value, ast.Name) and c.func.value.id != "self"]
-    apps = [c for c in apps if isinstance(b.defs.get(c.func.value.id), ast.Call) and au.call_tail(b.defs[c.func.value.id]) == "DataContainer"]
-    if len(apps) != 1:
-        ctx.fail("C02-F1", site, "filtered rebuild: expected exactly one append to the new edge container", "")
-        return
-    app = apps[0]
-    st = au.enclosing_stmt(app)
-    blk, owner = au.enclosing_block(st)
-    # guard: is_valid(a, b)
-    g = au.guards(app, stop=None)
-    inner = g[0] if g else None
-    ok = inner is not None and inner[1] and isinstance(inner[0], ast.Call) and au.call_tail(inner[0]) == "is_valid"
-    ctx.check(ok, "C02-F1", site, "kept edges are not exactly those satisfying is_valid", "")
-    def _inc(s):
-        i = au.increment(s)
-        return i is not None and i[1] == 1 and au.const(i[2]) == 1 and i[0].isidentifier()
-    incs = [s for s in blk if _inc(s)]
-    if len(incs) != 1:
-        ctx.fail("C02-F1", site, f"compacted edge index advanced {len(incs)} time(s) per kept edge instead of once",
-                 "the new index of a kept edge is the number of edges kept before it")
-        return
-    nvar = au.increment(incs[0])[0]
-    init = [s for s in au.stmts(fn.body) if isinstance(s, ast.Assign) and isinstance(s.targets[0], ast.Name)
-            and s.targets[0].id == nvar and not _inc(s)]
-    loops = [a for a in au.ancestors(st) if isinstance(a, ast.For)]
-    ok = len(init) == 1 and au.const(init[0].value) == 0 and loops and not any(a is loops[-1] for a in au.ancestors(init[0])) \
-        and len([s for s in au.stmts(fn.body) if au.increment(s) is not None and au.increment(s)[0] == nvar]) == 1
-    ctx.check(ok, "C02-F1", site, f"compacted index `{nvar}` is not initialised to 0 before the loop and advanced only with the append",
-              "surviving edges must be numbered 0,1,2,... in order")
-    # attribute copy under index nvar, before the increment, guarded by `ie in old`
-    copies = [s for s in au.stmts(blk) if isinstance(s, ast.Assign) and isinstance(s.targets[0], ast.Subscript)
-              and isinstance(s.targets[0].value, ast.Subscript)]
-    okc = False
-    for s in copies:
-        if au.src(s.targets[0].slice) == nvar and isinstance(s.value, ast.Subscript):
-            old_idx = au.src(s.value.slice)
-            gs = au.guards(s, stop=owner)
-            sparse = any(isinstance(t, ast.Compare) and isinstance(t.ops[0], ast.In) and pol and au.src(t.left) == old_idx
-                         and au.same(t.comparators[0], s.value.value) for t, pol in gs)
-            top = s
-            while au.enclosing_block(top)[0] is not blk:
-                top = au.parent(top)
-                if top is None:
-                    break
-            before = top is not None and [id(x) for x in blk].index(id(top)) < [id(x) for x in blk].index(id(incs[0]))
-            # old index must be the loop variable over the old edges
-            loopvar = loops[0].target.id if loops and isinstance(loops[0].target, ast.Name) else None
-            okc = sparse and before and old_idx == loopvar
-    ctx.check(okc, "C02-F1", site,
-              "surviving attribute values are not copied as new[n] = old[ie] (ie present in old) before n advances",
-              "an edge that survives the filter keeps its attribute values under its new index; dropped edges lose theirs")
-    ok = any(isinstance(s, ast.Assign) and au.is_self_attr(s.targets[0], "edges") and isinstance(s.value, ast.Name)
-             and s.value.id == app.func.value.id for s in au.stmts(fn.body))
-    ctx.check(ok, "C02-F1", site, "the rebuilt edge container is not installed as self.edges", "")
-
-
-# ---------------------------------------------------------------------------- D1
+# ------------------------------------------------------------------------------------------------ D1: dispatch, dimensionality, exposure
 CLASS_DIM = {"PointCloud": ("mesh.datatypes.pointcloud", 0), "PolyLine": ("mesh.datatypes.linear", 1),
              "SurfaceMesh": ("mesh.datatypes.surface", 2), "VolumeMesh": ("mesh.datatypes.volume", 3)}
 
 
-def d1_dispatch(ctx):
+def dispatch_rule(ctx):
     repo = ctx.repo
+    # ---- (a) _instanciate_raw_mesh_data: class for every (requested, data) dimension, data prepared before its dimensionality is read
     fn = repo.func(MESH, "_instanciate_raw_mesh_data")
     site = ctx.site(MESH, fn)
+    problems, allouts = [], []
     table = {}
-    for st in fn.body:
-        if isinstance(st, ast.If) and isinstance(st.test, ast.Compare) and len(st.test.ops) == 1 \
-                and isinstance(st.test.ops[0], ast.Eq) and isinstance(st.test.left, ast.Name) \
-                and isinstance(au.const(st.test.comparators[0]), int) and len(st.body) == 1 \
-                and isinstance(st.body[0], ast.Return) and isinstance(st.body[0].value, ast.Call) \
-                and isinstance(st.body[0].value.func, ast.Name):
-            table[au.const(st.test.comparators[0])] = st.body[0].value.func.id
-    ctx.check(set(table) == {0, 1, 2, 3}, "C02-D1", site,
-              f"class dispatch covers dimensions {sorted(table)} instead of 0..3", "a mesh of a missing dimension would come back as None")
-    for d, cname in sorted(table.items()):
-        if cname not in CLASS_DIM:
-            ctx.fail("C02-D1", site, f"dimension {d} dispatches to unknown class {cname}", "")
-            continue
-        cmod, cdim = CLASS_DIM[cname]
+    for dd in (0, 1, 2, 3):
+        for req in (None, 0, 1, 2, 3):
+            def build(w, dd=dd, req=req):
+                log = []
+                raw = w.raw()
+                raw.fields["_dimensionality"] = dd
+                w.ev.hooks[("method", RMD, "prepare")] = lambda ev, o, a, k: log.append("prepare")
+                w.ev.hooks[("attr", RMD, "dimensionality")] = lambda ev, o: (log.append("dim"), dd)[1]
+                f = w.ev.lookup("_instanciate_raw_mesh_data", E.Frame("mouette.mesh.mesh"))
+                r = w.ev.call(f, [raw] + ([req] if req is not None else []), {})
+                return w, raw, r, log
+            outs = M.run_paths(ctx, "C02-D1", site, "_instanciate_raw_mesh_data", build, both_orders=False)
+            if outs is None:
+                return
+            undecide_raises(outs, "_instanciate_raw_mesh_data")
+            allouts += [o for o in outs if o.unknown is not None][:1]
+            for o in M.decided(outs):
+                w, raw, r, log = o.value
+                want = max(dd, req if req is not None else -1)
+                got = r.cls.name if isinstance(r, Obj) else None
+                table[(req, dd)] = got
+                wantc = [c for c, (m, d) in CLASS_DIM.items() if d == want][0]
+                given = (list(r.fields.get("__args__", [])) + list(r.fields.get("__kw__", {}).values())) if isinstance(r, Obj) else []
+                if got != wantc or not any(x is raw for x in given):
+                    if got is None:
+                        problems.append(("C02-D1", "class dispatch does not cover every dimension 0..3",
+                                         f"requested {req}, data of dimensionality {dd}: no mesh object is returned ({r!r}) - a mesh of a missing dimension "
+                                         "would come back as None"))
+                    elif got in CLASS_DIM:
+                        problems.append(("C02-D1", f"dimension {want} dispatches to {got}",
+                                         f"requested {req}, data of dimensionality {dd}: the class returned must be the one matching "
+                                         f"max(requested, dimensionality of the data) = {want}, i.e. {wantc}"))
+                    else:
+                        o.unknown = Unknown(f"dispatch returns {r!r}")
+                if "dim" in log and ("prepare" not in log or log.index("prepare") > log.index("dim")):
+                    problems.append(("C02-D1", "data is not prepared before its dimensionality is read",
+                                     "the class is chosen from the dimensionality of un-normalised data: when every declared edge is invalid the object "
+                                     "has no edge but is built as a PolyLine"))
+    M.settle(ctx, site, allouts, problems, ["C02-D1"], "dispatch table over requested x data dimension (20 cases)", "_instanciate_raw_mesh_data")
+    # ---- (b) each class passes its own dimension to Mesh.__init__
+    for cname, (cmod, cdim) in sorted(CLASS_DIM.items()):
         init = repo.func(cmod, cname + ".__init__")
-        lit = None
+        s2 = ctx.site(cmod, init)
+        lits = []
         for c in au.calls(init):
-            if au.call_name(c) == "Mesh.__init__" and len(c.args) >= 2:
-                lit = au.const(c.args[1])
-        ctx.check(lit == d, "C02-D1", ctx.site(cmod, init),
-                  f"dimension {d} is dispatched to {cname}, which builds itself with dimension {lit}",
-                  "the class returned must be the one matching the highest-dimensional element present",
-                  note=f"dim {d} -> {cname}")
-    # dim = max(dim, data.dimensionality) before the dispatch
-    ok = any(isinstance(st, ast.Assign) and isinstance(st.value, ast.Call) and au.call_tail(st.value) == "max"
-             and any(au.src(a).endswith(".dimensionality") for a in st.value.args) for st in fn.body)
-    ctx.check(ok, "C02-D1", site, "the dispatched dimension is not max(requested, dimensionality of the data)", "")
-    ok = any(isinstance(st, ast.Expr) and isinstance(st.value, ast.Call) and au.call_tail(st.value) == "prepare" for st in fn.body[:2])
-    ctx.check(ok, "C02-D1", site, "data is not prepared before its dimensionality is read", "")
-    # dimensionality: cells -> 3, faces -> 2, edges -> 1, else 0 - decided as a decision table over (container empty?) atoms, so
-    # that the spelling of the if / elif chain does not matter
-    fn = repo.func(MD, RMD + "._compute_dimensionality")
-    from .. import decide
-
-    def atom(e):
-        if isinstance(e, ast.Call) and au.call_tail(e) == "empty" and au.is_self_attr(e.func.value):
-            return e.func.value.attr
-        if isinstance(e, ast.Compare) and len(e.ops) == 1 and isinstance(e.left, ast.Call) and au.call_tail(e.left) == "len" \
-                and e.left.args and au.is_self_attr(e.left.args[0]) and au.const(e.comparators[0]) == 0:
-            if isinstance(e.ops[0], ast.Eq):
-                return (e.left.args[0].attr, True)
-            if isinstance(e.ops[0], (ast.Gt, ast.NotEq)):
-                return (e.left.args[0].attr, False)
-        return None
-    bad = None
-    try:
-        names, rows = decide.table(fn.body, atom)
-        for env, taken in rows:
-            want = 3 if not env.get("cells", True) else 2 if not env.get("faces", True) else 1 if not env.get("edges", True) else 0
-            vals = [au.const(st.value) for p in taken for st in p.stmts if isinstance(st, ast.Assign) and au.is_self_attr(st.targets[0], "_dimensionality")]
-            if len(taken) != 1 or vals[-1:] != [want]:
-                bad = bad or (env, vals)
-        if set(names) != {"cells", "faces", "edges"}:
-            bad = bad or ("containers tested", names)
-    except decide.Unknown as e:
-        bad = ("condition not on the emptiness of a container", str(e))
-    ctx.check(bad is None, "C02-D1", ctx.site(MD, fn),
-              "dimensionality is not 3 / 2 / 1 / 0 for the highest-dimensional non-empty container among cells, faces, edges",
-              f"differs for {bad}", note="dimensionality decision table (8 cases)")
-    # Mesh.__init__ thresholds
+            nm = au.call_name(c) or ""
+            if au.call_tail(c) == "__init__" and (nm.startswith("Mesh.") or (isinstance(c.func, ast.Attribute) and isinstance(c.func.value, ast.Call)
+                                                                              and au.call_tail(c.func.value) == "super")):
+                args = c.args[1:] if nm.startswith("Mesh.") else c.args
+                v = au.const(args[0]) if args else next((au.const(k.value) for k in c.keywords if k.arg == "dim"), None)
+                lits.append(v)
+        if not lits or lits[0] is None:
+            ctx.undecided("C02-D1", s2, f"{cname}.__init__: the dimension passed to Mesh.__init__ is not a literal", "")
+        else:
+            ctx.check(lits[0] == cdim, "C02-D1", s2, f"dimension {cdim} is dispatched to {cname}, which builds itself with dimension {lits[0]}",
+                      "the class returned must be the one matching the highest-dimensional element present", note=f"dim {cdim} -> {cname}")
+    # ---- (c) dimensionality of the data: decision over the emptiness of cells / faces / edges
+    fn, site = step_site(ctx, "_compute_dimensionality")
+    problems, allouts = [], []
+    for env in [(c, f, e) for c in (0, 1) for f in (0, 1) for e in (0, 1)]:
+        def build(w, env=env):
+            raw = mk_raw(w, 4, cells=[(0, 1, 2, 3)] * env[0], faces=[(0, 1, 2)] * env[1], edges=[(0, 1)] * env[2])
+            step(w, raw, "_compute_dimensionality")
+            return w.ev.getattr(raw, "dimensionality")
+        outs = M.run_paths(ctx, "C02-D1", site, "dimensionality of the data", build, both_orders=False)
+        if outs is None:
+            break
+        undecide_raises(outs, "dimensionality of the data")
+        allouts += outs
+        for o in M.decided(outs):
+            want = 3 if env[0] else 2 if env[1] else 1 if env[2] else 0
+            if o.value != want:
+                problems.append(("C02-D1", "dimensionality is not 3 / 2 / 1 / 0 for the highest-dimensional non-empty container among cells, faces, edges",
+                                 f"cells {'non-' if env[0] else ''}empty, faces {'non-' if env[1] else ''}empty, edges {'non-' if env[2] else ''}empty: "
+                                 f"dimensionality {o.value!r} instead of {want}"))
+    M.settle(ctx, site, allouts, problems, ["C02-D1"], "dimensionality decision table (8 cases)", "_compute_dimensionality")
+    # ---- (d) Mesh.__init__ exposes containers by thresholds
     fn = repo.func(BASE, "Mesh.__init__")
-    exposed = {}
-    for st in fn.body:
-        if isinstance(st, ast.Assign) and au.is_self_attr(st.targets[0]):
-            exposed[st.targets[0].attr] = (-1, au.src(st.value))
-        k = _gt_threshold(st.test) if isinstance(st, ast.If) else None
-        if k is not None:
-            for s in st.body:
-                if isinstance(s, ast.Assign) and au.is_self_attr(s.targets[0]):
-                    exposed[s.targets[0].attr] = (k, au.src(s.value))
+    site = ctx.site(BASE, fn)
+    problems, allouts = [], []
     want = {"vertices": -1, "edges": 0, "faces": 1, "face_corners": 1, "cells": 2, "cell_corners": 2, "cell_faces": 2}
-    got = {k: v[0] for k, v in exposed.items()}
-    src_ok = all(v[1].endswith("." + k) for k, v in exposed.items())
-    ctx.check(got == want and src_ok, "C02-D1", ctx.site(BASE, fn),
-              f"Mesh.__init__ exposes containers {got}", f"expected thresholds {want}, each bound to the data container of the same name")
+    for dim, full in [(d, f) for d in (0, 1, 2, 3) for f in (True, False)]:
+        def build(w, dim=dim, full=full):
+            raw = mk_raw(w, 4, edges=[(1, 1), (1, 0)], faces=[(0, 1, 2)] if full else [], cells=[(0, 1, 2, 3)] if full else [])
+            pin_config(w)
+            me = Obj(w.cls("mouette.mesh.datatypes.base", "Mesh"), {})
+            w.ev.call(w.method(me, "__init__"), [dim, raw], {})
+            return w, raw, me
+        outs = M.run_paths(ctx, "C02-D1", site, "Mesh.__init__", build, both_orders=False)
+        if outs is None:
+            break
+        undecide_raises(outs, "Mesh.__init__")
+        allouts += outs
+        for o in M.decided(outs):
+            w, raw, me = o.value
+            exp = {k for k, t in want.items() if dim > t}
+            got = {k for k in want if k in me.fields}
+            wrong = [k for k in got if me.fields[k] is not raw.fields[k]]
+            if got != exp:
+                problems.append(("C02-D1", "Mesh.__init__ does not expose exactly the containers of its dimension, each bound to the data container of the same name",
+                                 f"dimension {dim}: exposes {sorted(got)}, expected {sorted(exp)}"))
+            elif wrong:
+                problems.append(("C02-D1", "Mesh.__init__ binds a container that is not the one of the prepared data",
+                                 f"dimension {dim}: {wrong} is not the container the data holds after prepare() (the normalisation of the edges may "
+                                 "replace the container: the data must be prepared before its containers are taken)"))
+            elif dim >= 1 and [tuple(e) for e in w.data(me.fields["edges"])][:1] != [(0, 1)]:
+                problems.append(("C02-D1", "Mesh.__init__ does not prepare the data it is given",
+                                 f"dimension {dim}: the mesh exposes the edges {rows_(w, me.fields['edges'])[:3]}...: not normalised / filtered"))
+            elif dim == 0 and rows_(w, raw.fields["edges"])[:1] != [(0, 1)]:
+                problems.append(("C02-D1", "Mesh.__init__ does not prepare the data it is given",
+                                 f"dimension {dim}: the data keeps the edges {rows_(w, raw.fields['edges'])[:3]}: not normalised / filtered"))
+    M.settle(ctx, site, allouts, problems, ["C02-D1"], "containers exposed by dimension thresholds (4 cases)", "Mesh.__init__")
 
 
-# ---------------------------------------------------------------------------- H1
-def h1_hard_edges(ctx, RULE="C02-H1"):
-    repo = ctx.repo
-    fn = repo.func(MD, RMD + "._complete_edges_from_faces")
-    site = ctx.site(MD, fn)
-    b = sym.Bindings(fn)
-    stores = []
-    for st in au.stmts(fn.body):
-        if isinstance(st, ast.Assign) and isinstance(st.targets[0], ast.Subscript) and au.const(st.value) is True:
-            base = b.resolve(st.targets[0].value, at=st)
-            if isinstance(base, ast.Call) and au.call_tail(base) in ("create_attribute", "get_attribute") and base.args \
-                    and au.const(base.args[0]) == "hard_edges":
-                stores.append(st)
-    if not stores:
-        ctx.fail(RULE, site, "declared edges are no longer flagged in the 'hard_edges' attribute", "")
-        return
-    init = repo.func(MD, RMD + ".__init__")
-    inherits = any(isinstance(st, (ast.Assign, ast.AnnAssign)) and au.is_self_attr(au.assign_targets(st)[0], "_prepared")
-                   and st.value is not None and not isinstance(st.value, ast.Constant) for st in au.stmts(init.body))
-    for st in stores:
-        gs = au.guards(st, stop=fn)
-        guarded = False
-        for t, pol in gs:
-            s = au.src(t)
-            if "hard_edges" in s and ("has_attribute" in s or "attributes" in s) and (
-                    (isinstance(t, ast.UnaryOp) and pol) or (isinstance(t, ast.Compare) and isinstance(t.ops[0], ast.NotIn) and pol)
-                    or (isinstance(t, ast.Call) and not pol) or (isinstance(t, ast.Compare) and isinstance(t.ops[0], ast.In) and not pol)):
-                guarded = True
-        ctx.check(guarded or inherits, RULE, ctx.site(MD, fn, st),
-                  "every current edge is flagged hard each time prepare() runs, also on data wrapped from an already built mesh",
-                  "RawMeshData(mesh) starts unprepared and shares the mesh's containers: re-preparing (every editing block of "
-                  "subdivision.py does) marks the edges generated from faces as hard edges; only edges the caller declared may be "
-                  "flagged and building again must change nothing",
-                  note="hard-edge flagging guarded against re-preparation")
-    # the flag loop ranges over the edges present *before* completion
-    st = stores[0]
-    loops = [a for a in au.ancestors(st) if isinstance(a, ast.For)]
-    first_app = [c for c in au.calls(fn) if au.call_tail(c) == "append" and au.is_self_attr(c.func.value, "edges")]
-    ok = bool(loops) and au.src(loops[0].iter) in ("self.id_edges", "range(len(self.edges))") and first_app \
-        and loops[0].lineno < first_app[0].lineno
-    ctx.check(ok, RULE, site, "hard-edge flagging does not range over exactly the edges present before completion",
-              "edges generated from faces must not be flagged")
-
-
-
-
-def _hard_attr_test(t):
-    """(is_test_on_hard_edges_attribute, polarity_meaning_exists) for has_attribute('hard_edges') / 'hard_edges' in X.attributes"""
-    if isinstance(t, ast.Call) and au.call_tail(t) == "has_attribute" and t.args and au.const(t.args[0]) == "hard_edges":
-        return True
-    if isinstance(t, ast.Compare) and len(t.ops) == 1 and isinstance(t.ops[0], ast.In) and au.const(t.left) == "hard_edges":
-        return True
-    return False
-
-
-def h2_hard_edges_typestate(ctx, RULE="C02-H1"):
-    """(a) after _complete_edges_from_faces ran past its `faces.empty()` exit the 'hard_edges' attribute exists on every path,
-    so that a later re-preparation can recognise prepared data; (b) the completion of missing edges is reachable when the
-    attribute already exists (re-preparing an edited mesh must still add the new edges)."""
-    from ..flow import Flow, TOP
-    fn = ctx.repo.func(MD, RMD + "._complete_edges_from_faces")
-    site = ctx.site(MD, fn)
-
-    def refine(state, e, branch):
-        if state is TOP:
-            return state
-        if isinstance(e, ast.UnaryOp) and isinstance(e.op, ast.Not):
-            return refine(state, e.operand, not branch)
-        if isinstance(e, ast.BoolOp):
-            if isinstance(e.op, ast.And) and branch or isinstance(e.op, ast.Or) and not branch:
-                for v in e.values:
-                    state = refine(state, v, branch)
-            return state
-        if isinstance(e, ast.Compare) and len(e.ops) == 1 and isinstance(e.ops[0], ast.NotIn) and au.const(e.left) == "hard_edges":
-            return refine(state, ast.Compare(left=e.left, ops=[ast.In()], comparators=e.comparators), not branch)
-        if _hard_attr_test(e):
-            if branch:
-                return TOP if "absent" in state else state | {"exists"}
-            return TOP if "exists" in state else state | {"absent"}
-        return state
-    visited = {}
-
-    def stmt(state, st):
-        if state is TOP:
-            return state
-        if not hasattr(st, "loop"):
-            for c in au.calls(st):
-                if au.call_tail(c) == "create_attribute" and c.args and au.const(c.args[0]) == "hard_edges":
-                    state = (state - {"absent"}) | {"exists"}
-                if au.call_tail(c) == "append" and au.is_self_attr(c.func.value, "edges"):
-                    visited.setdefault("append", []).append(state)
-        return state
-    # (a) from an unknown state
-    fl = Flow(stmt, lambda s_, e: s_, refine)
-    fl.run(fn.body, frozenset())
-    bad_exits = []
-    for kind, node, st_ in fl.exits:
-        if kind == "raise" or st_ is TOP:
-            continue
-        early = node is not None and any(isinstance(t, ast.Call) and au.call_tail(t) == "empty" and au.is_self_attr(t.func.value, "faces")
-                                         for t, pol in au.guards(node, stop=fn) if pol)
-        if not early and "exists" not in st_:
-            bad_exits.append(node.lineno if node is not None else "end")
-    ctx.check(not bad_exits, RULE, site,
-              "_complete_edges_from_faces can finish without the 'hard_edges' attribute existing",
-              "the attribute is what marks data as already prepared: if a first preparation can leave it absent (e.g. when no edge was "
-              "declared), the next preparation of the built mesh flags every edge generated from faces as a hard edge",
-              note="hard_edges exists on every normal exit")
-    # (b) with the attribute present, the completion append must still be reachable
-    visited.clear()
-    fl2 = Flow(stmt, lambda s_, e: s_, refine)
-    fl2.run(fn.body, frozenset({"exists"}))
-    reach = [s_ for s_ in visited.get("append", []) if s_ is not TOP]
-    ctx.check(bool(reach), RULE, site,
-              "edges of faces are no longer completed when the 'hard_edges' attribute already exists",
-              "re-preparing a mesh that was edited in place (triangulated quads, fan splits) must still add the new sides as edges; "
-              "otherwise faces have sides that are not edges",
-              note="edge completion independent of the hard_edges attribute")
-
-# ---------------------------------------------------------------------------- M1
-def m1_prepare_order(ctx):
+# ------------------------------------------------------------------------------------------------ M1: prepare() as a whole
+def prepare_order_rule(ctx):
+    """prepare() evaluated as a whole on small concrete templates; the obligations are on the prepared data, not on the names or the
+    order of the private steps: (a) data given by cells only ends with the faces of the cells, the sides of those faces as edges, corner
+    records for all of them (completion of faces, then of edges, then normalisation / corner generation); (b) the dimensionality is
+    the one of the *normalised* data, also when one was computed before; (c) preparing prepared data again changes nothing."""
     fn = ctx.repo.func(MD, RMD + ".prepare")
     site = ctx.site(MD, fn)
-    body = [st for st in fn.body if not (isinstance(st, ast.Expr) and isinstance(st.value, ast.Constant))]
-    first = body[0] if body else None
-    ok = isinstance(first, ast.If) and au.is_self_attr(first.test, "_prepared") and len(first.body) == 1 \
-        and isinstance(first.body[0], ast.Return)
-    ctx.check(ok, "C02-M1", site, "prepare() does not start with `if self._prepared: return`",
-              "building again from an already prepared object must change nothing")
-    last = body[-1] if body else None
-    ok = isinstance(last, ast.Assign) and au.is_self_attr(last.targets[0], "_prepared") and au.const(last.value) is True
-    ctx.check(ok, "C02-M1", site, "prepare() does not end with `self._prepared = True`", "")
-    seq = [c.func.attr for st in body for c in sorted(au.calls(st), key=lambda c: (c.lineno, c.col_offset))
-           if isinstance(c.func, ast.Attribute) and au.is_self_attr(c.func)]
-    need = ["_complete_faces_from_cells", "_complete_edges_from_faces", "_prepare_vertices", "_prepare_edges",
-            "_generate_face_corners", "_generate_cell_corners", "_generate_cell_faces", "_compute_dimensionality"]
-    missing = [x for x in need if x not in seq]
-    ctx.check(not missing, "C02-M1", site, f"prepare() no longer calls {missing}", "")
-    if missing:
+    problems, allouts = [], []
+    cell = (0, 2, 1, 3)
+
+    # (a) cells only
+    def build_a(w):
+        raw = mk_raw(w, 4, cells=[cell])
+        pin_config(w)
+        w.ev.call(w.method(raw, "prepare"), [], {})
+        return w, raw
+    outs = M.run_paths(ctx, "C02-M1", site, "prepare() on data given by cells only", build_a, both_orders=False)
+    if outs is None:
         return
-    before = [("_complete_faces_from_cells", "_complete_edges_from_faces"),
-              ("_complete_edges_from_faces", "_prepare_edges"), ("_complete_faces_from_cells", "_generate_face_corners"),
-              ("_complete_faces_from_cells", "_generate_cell_faces"), ("_complete_edges_from_faces", "_compute_dimensionality"),
-              ("_complete_faces_from_cells", "_compute_dimensionality")]
-    for a, bb in before:
-        ctx.check(seq.index(a) < seq.index(bb), "C02-M1", site, f"prepare() calls {bb} before {a}",
-                  "edges of completed faces / corners of completed faces would be missing")
+    undecide_raises(outs, "prepare()")
+    allouts += outs
+    for o in M.decided(outs):
+        w, raw = o.value
+        F, Ed = rows_(w, raw.fields["faces"]), rows_(w, raw.fields["edges"])
+        want_f = {frozenset(cell[i] for i in t) for t in TET_TABLE}
+        if {frozenset(f) for f in F} != want_f:
+            problems.append(("C02-M1", "prepare() does not complete the faces of the cells", f"a tetrahedron alone ends with faces {[fmt(f) for f in F]}"))
+            continue
+        if {frozenset(e) for e in Ed} != sides_of(F) or len(Ed) != 6:
+            problems.append(("C02-M1", "prepare() completes the edges before the faces of the cells exist",
+                             f"a tetrahedron alone ends with {len(Ed)} edge(s): faces generated from cells must contribute their sides "
+                             "(face completion before edge completion)"))
+        fe, fa = _corner_state(w, raw.fields["face_corners"])
+        if (fe, fa) != ([v for f in F for v in f], [i for i, f in enumerate(F) for _ in f]):
+            problems.append(("C02-M1", "prepare() generates the face corners before the faces of the cells exist (or not at all)",
+                             f"{len(fe)} corner record(s) for {sum(len(f) for f in F)} face-vertex incidences"))
+        ce, ca = _corner_state(w, raw.fields["cell_corners"])
+        if (ce, ca) != (list(cell), [0] * 4):
+            problems.append(("C02-M1", "prepare() does not generate the cell corners", f"elements {ce}, owners {ca}"))
+        ge, ga = _corner_state(w, raw.fields["cell_faces"])
+        if ga != [0] * 4 or sorted(ge) != [0, 1, 2, 3]:
+            problems.append(("C02-M1", "prepare() generates the cell-face records before the faces of the cells exist (or not at all)",
+                             f"records {ge} / owners {ga} for one tetrahedron with 4 faces"))
+        if w.ev.getattr(raw, "dimensionality") != 3:
+            problems.append(("C02-M1", "prepare() leaves a wrong dimensionality", f"{w.ev.getattr(raw, 'dimensionality')!r} for data with a cell"))
+
+    # (b) every declared edge invalid, a dimensionality already read before the preparation
+    def build_b(w):
+        raw = mk_raw(w, 3, edges=[(1, 1), (0, 7)])
+        d0 = w.ev.getattr(raw, "dimensionality")      # read (and cached) before the edges are filtered
+        pin_config(w)
+        w.ev.call(w.method(raw, "prepare"), [], {})
+        return w, raw, d0, w.ev.getattr(raw, "dimensionality")
+    outs = M.run_paths(ctx, "C02-M1", site, "prepare() on data whose edges are all invalid", build_b, both_orders=False)
+    if outs is not None:
+        undecide_raises(outs, "prepare()")
+        allouts += outs
+        for o in M.decided(outs):
+            w, raw, d0, d1 = o.value
+            if rows_(w, raw.fields["edges"]) == [] and d1 != 0:
+                problems.append(("C02-M1", "prepare() does not recompute the dimensionality after the edges were filtered",
+                                 f"all declared edges are invalid and dropped, the dimensionality stays {d1!r} (it was {d0!r} before the preparation): "
+                                 "the class would not match the highest-dimensional element present"))
+
+    # (b') sides generated from a face that repeats a vertex are filtered like declared edges
+    def build_b2(w):
+        raw = mk_raw(w, 3, faces=[(0, 1, 1), (0, 1, 2)])
+        pin_config(w)
+        w.ev.call(w.method(raw, "prepare"), [], {})
+        return w, raw
+    outs = M.run_paths(ctx, "C02-M1", site, "prepare() on a face that repeats a vertex", build_b2, both_orders=False)
+    if outs is not None:
+        undecide_raises(outs, "prepare()")
+        allouts += outs
+        for o in M.decided(outs):
+            w, raw = o.value
+            loops = [e for e in rows_(w, raw.fields["edges"]) if len(e) == 2 and e[0] == e[1]]
+            if loops:
+                problems.append(("C02-M1", "prepare() filters the edges before the edges of the faces are generated",
+                                 f"the self-loop {fmt(loops[0])} generated from the face (0,1,1) survives: completion must come before the normalisation of the edges"))
+
+    # (b'') every vertex row is cast to the vector class, whatever its representation (list, tuple, array, already a vector)
+    def build_v(w):
+        from ..rules import hb_np
+        vec_cls = w.cls("mouette.geometry.vector", "Vec")
+
+        def mk_vec(ev, args, kw):
+            return Obj(vec_cls, {"__opaque__": True, "__closed__": True, "data": args[0] if len(args) == 1 else tuple(args)})
+        w.ev.hooks[("class", "Vec")] = mk_vec
+        X = [Opaque(("coord", i)) for i in range(12)]
+        rows = [mk_vec(w.ev, [tuple(X[0:3])], {}), SList(items=X[3:6]), tuple(X[6:9]), hb_np.Arr(list(X[9:12]))]
+        raw = w.raw(vertices=w.container("vertices", rows))
+        pin_config(w)
+        w.ev.call(w.method(raw, "prepare"), [], {})
+        return w, raw, vec_cls
+    try:
+        ctx.repo.cls("geometry.vector", "Vec")
+        outs = M.run_paths(ctx, "C02-M1", site, "prepare() on vertex rows of several kinds", build_v, both_orders=False)
+    except AnalysisError:
+        outs = None
+    if outs is not None:
+        undecide_raises(outs, "prepare()")
+        allouts += outs
+        for o in M.decided(outs):
+            w, raw, vec_cls = o.value
+            kinds = ["a vector", "a list", "a tuple", "an array"]
+            vs = list(w.data(raw.fields["vertices"]))
+            bad = [kinds[i] for i, v in enumerate(vs[:4]) if not (isinstance(v, Obj) and v.cls.node is vec_cls.node)]
+            if bad or len(vs) != 4:
+                problems.append(("C02-M1", "prepare() does not cast every vertex to the vector class",
+                                 f"vertices given as a vector, a list, a tuple and an array: the one(s) given as {', '.join(bad) or '?'} are left as they are "
+                                 "- later behaviour (x/y/z access, arithmetic) would depend on how the rows were given"))
+
+    # (c) prepared data is left alone
+    def build_c(w):
+        raw = mk_raw(w, 4, edges=[(1, 0)], faces=[(0, 1, 2), (2, 1, 3)])
+        pin_config(w)
+        w.ev.call(w.method(raw, "prepare"), [], {})
+        snap = (rows_(w, raw.fields["edges"]), _corner_state(w, raw.fields["face_corners"]),
+                dict(w.attributes(raw.fields["edges"]).get("hard_edges").data) if isinstance(w.attributes(raw.fields["edges"]).get("hard_edges"), AttrModel) else None)
+        w.data(raw.fields["edges"]).append((3, 0))         # tamper: an edge that a second normalisation would sort / flag
+        w.ev.call(w.method(raw, "prepare"), [], {})
+        he = w.attributes(raw.fields["edges"]).get("hard_edges")
+        return w, raw, snap, (rows_(w, raw.fields["edges"]), _corner_state(w, raw.fields["face_corners"]), dict(he.data) if isinstance(he, AttrModel) else None)
+    outs = M.run_paths(ctx, "C02-M1", site, "prepare() called twice", build_c, both_orders=False)
+    if outs is not None:
+        undecide_raises(outs, "prepare()")
+        allouts += outs
+        for o in M.decided(outs):
+            w, raw, snap, after = o.value
+            if after[0] != snap[0] + [(3, 0)] or after[1] != snap[1] or after[2] != snap[2]:
+                problems.append(("C02-M1", "prepare() does not start with `if self._prepared: return` / does not end with `self._prepared = True`",
+                                 f"a second prepare() on prepared data changes it (edges {snap[0]} + [(3,0)] -> {after[0]}, hard flags {snap[2]} -> {after[2]}): "
+                                 "building again from an already prepared object must change nothing"))
+    M.settle(ctx, site, allouts, problems, ["C02-M1"], "prepare(): cells-only data, stale dimensionality, idempotence", "prepare()")
 
 
-# ---------------------------------------------------------------------------- C1
-def c1_corner_generation(ctx):
-    repo = ctx.repo
-    for q, cont, elems in [(RMD + "._generate_face_corners", "face_corners", "faces"),
-                           (RMD + "._generate_cell_corners", "cell_corners", "cells")]:
-        fn = repo.func(MD, q)
-        site = ctx.site(MD, fn)
-        ok = False
-        for st in au.stmts(fn.body):
-            if isinstance(st, ast.For) and isinstance(st.iter, ast.Call) and au.call_tail(st.iter) == "enumerate" \
-                    and st.iter.args and au.is_self_attr(st.iter.args[0], elems) and isinstance(st.target, ast.Tuple):
-                idx, row = (x.id if isinstance(x, ast.Name) else None for x in st.target.elts)
-                for s in st.body:
-                    if isinstance(s, ast.For) and isinstance(s.iter, ast.Name) and s.iter.id == row and isinstance(s.target, ast.Name):
-                        v = s.target.id
-                        for c in au.calls(s):
-                            if au.call_tail(c) == "append" and au.is_self_attr(c.func.value, cont) and len(c.args) == 2:
-                                ok = ok or (au.src(c.args[0]) == v and au.src(c.args[1]) == idx and not au.guards(c, stop=st))
-        ctx.check(ok, "C02-C1", site,
-                  f"{fn.name}: corners are not generated as `for i,row in enumerate({elems}): for v in row: {cont}.append(v, i)`",
-                  "one corner record per incidence, in element order, with (element, owner)")
-    fn = repo.func(MD, RMD + "._generate_cell_faces")
-    site = ctx.site(MD, fn)
-    # each face of the table is recorded through the keyified lookup and owner iC, unconditionally
-    b = sym.Bindings(fn)
-    oke = oka = False
-    for st in au.stmts(fn.body):
-        for w in _side_write(st):
-            base, side, kind, val = w
-            if base.endswith("cell_faces") and kind == "fill" and isinstance(val, ast.Call):
-                loops = [a for a in au.ancestors(st) if isinstance(a, ast.For)]
-                if len(loops) < 2:
-                    continue
-                face = loops[0].target.id if isinstance(loops[0].target, ast.Name) else None
-                outer_idx = loops[1].target.elts[0].id if isinstance(loops[1].target, ast.Tuple) else None
-                arg = val.args[0] if val.args else None
-                if side == "_elem" and isinstance(arg, ast.Subscript) and common.is_keyify(arg.slice) \
-                        and au.src(arg.slice.args[0]) == face:
-                    oke = True
-                if side == "_adj" and arg is not None and au.src(arg) == outer_idx and not au.guards(st, stop=loops[0]):
-                    oka = True
-    ctx.check(oke, "C02-C1", site, "_generate_cell_faces: the recorded element is not face_id[keyify(face)] for each table face", "")
-    ctx.check(oka, "C02-C1", site, "_generate_cell_faces: the owner cell is not recorded unconditionally for each table face",
-              "cell_faces must hold one (face, cell) record per cell-face incidence; without the owner, cell_faces.adj() and "
-              "attributes on cell faces are unusable")
-
-
-def _gt_threshold(test):
-    """test is `name > k` in any spelling (`k < name`, `name >= k+1`, `not name <= k`): returns k, else None"""
-    t, pol = au.strip_not(test)
-    if not (isinstance(t, ast.Compare) and len(t.ops) == 1):
-        return None
-    l, r, op = t.left, t.comparators[0], type(t.ops[0])
-    if isinstance(r, ast.Name) and isinstance(au.const(l), int):
-        l, r = r, l
-        op = {ast.Lt: ast.Gt, ast.LtE: ast.GtE, ast.Gt: ast.Lt, ast.GtE: ast.LtE}.get(op)
-    if not (isinstance(l, ast.Name) and isinstance(au.const(r), int)) or op is None:
-        return None
-    k = au.const(r)
-    if not pol:
-        op = {ast.Lt: ast.GtE, ast.LtE: ast.Gt, ast.Gt: ast.LtE, ast.GtE: ast.Lt}.get(op)
-    return {ast.Gt: k, ast.GtE: k - 1}.get(op)
-
-
-# ---------------------------------------------------------------------------- A1
-def a1_from_arrays(ctx):
+# ------------------------------------------------------------------------------------------------ A1: from_arrays
+def from_arrays_rule(ctx):
+    from ..rules import hb_np
     fn = ctx.repo.func(MESH, "from_arrays")
     site = ctx.site(MESH, fn)
     ps = au.params(fn)
-    V = ps[0]
-    b = sym.Bindings(fn)
-    # padding
-    pad_ok = rej_ok = False
-    for st in fn.body:
-        if isinstance(st, ast.If) and isinstance(st.test, ast.Compare) and f"{V}.shape[1]" in [au.src(x) for x in [st.test.left] + st.test.comparators]:
-            try:
-                w, _ = order.compare(st.test, "w < 3", lambda node: "w" if au.src(node) == f"{V}.shape[1]" else (_ for _ in ()).throw(order.Unsupported("x")))
-            except order.Unsupported:
-                w = True
-            pads = [c for c in au.calls(st.body) if au.call_tail(c) == "pad"]
-            if w is None and pads and len(pads[0].args) >= 2:
-                widths = au.src(pads[0].args[1]).replace(" ", "")
-                pad_ok = widths == f"((0,0),(0,3-{V}.shape[1]))"
-            for el in st.orelse:
-                if isinstance(el, ast.If):
-                    try:
-                        w2, _ = order.compare(el.test, "w != 3", lambda node: "w" if au.src(node) == f"{V}.shape[1]" else (_ for _ in ()).throw(order.Unsupported("x")))
-                    except order.Unsupported:
-                        w2 = True
-                    rej_ok = w2 is None and any(isinstance(x, ast.Raise) for x in el.body)
-    ctx.check(pad_ok and rej_ok, "C02-A1", site, "from_arrays does not pad narrower vertex arrays to three columns and reject wider ones",
-              "the finished object must have 3-D vertices", note="pad to 3 / reject others")
-    nv = None
-    for st in fn.body:
-        for name, val in sym.split_assign(st):
-            if au.src(val) == f"{V}.shape[0]":
-                nv = name
-    kinds = {"edges": None, "faces": None, "cells": None}
-    for st in fn.body:
-        if isinstance(st, ast.If) and isinstance(st.test, ast.Compare) and isinstance(st.test.ops[0], ast.IsNot) \
-                and isinstance(st.test.left, ast.Name) and au.const(st.test.comparators[0]) is None and st.test.left.id in ps:
-            arr = st.test.left.id
-            adds = [s_ for s_ in st.body if isinstance(s_, ast.AugAssign) and isinstance(s_.target, ast.Attribute) and s_.target.attr in kinds]
-            checks = [s_ for s_ in st.body if isinstance(s_, ast.If) and any(isinstance(x, ast.Raise) for x in s_.body)]
-            rng = False
-            for c in checks:
-                for n in au.walk(c.test):
-                    if isinstance(n, ast.Compare) and isinstance(n.ops[0], ast.GtE) and au.src(n.comparators[0]) == nv \
-                            and arr in au.names(n.left):
-                        rng = True
-            if len(adds) == 1:
-                payload = adds[0].value
-                while isinstance(payload, ast.Call) and au.call_tail(payload) in ("list", "tuple") and len(payload.args) == 1:
-                    payload = payload.args[0]
-                before = all(c.lineno < adds[0].lineno for c in checks)
-                kinds[adds[0].target.attr] = (arr, au.src(payload) == arr, rng and before)
-    expect = dict(zip(("edges", "faces", "cells"), ps[1:4]))
-    for k, arr in expect.items():
-        got = kinds.get(k)
-        ctx.check(got is not None and got[0] == arr and got[1] and got[2], "C02-A1", site,
-                  f"from_arrays: the `{arr}` array is not range-checked (index >= number of vertices rejected) and appended to `{k}`",
-                  f"found {got}; an index array must land in the container of its own kind", note=f"{arr} -> {k}, range-checked")
+    problems, allouts = [], []
+    X = [Opaque(("coord", i)) for i in range(12)]
+
+    def run(label, V, E_=None, F=None, C=None, raw=True):
+        def build(w):
+            inst = []
+
+            def h_inst(ev, args, kw):
+                inst.append((args, kw))
+                return Opaque(("instantiated",))
+            w.ev.hooks.update(hb_np.hooks())
+            w.ev.hooks[("func", "_instanciate_raw_mesh_data")] = h_inst
+            w.ev.hooks[("func", "mouette.mesh.mesh._instanciate_raw_mesh_data")] = h_inst
+            f = w.ev.lookup("from_arrays", E.Frame("mouette.mesh.mesh"))
+            arr = lambda x: None if x is None else hb_np.Arr([list(r) for r in x])
+            r = w.ev.call(f, [arr(V), arr(E_), arr(F), arr(C)], {"raw": raw})
+            return w, r, inst
+        outs = M.run_paths(ctx, "C02-A1", site, f"from_arrays ({label})", build, both_orders=False)
+        if outs is None:
+            return None
+        allouts.extend(o for o in outs if o.unknown is not None)
+        return M.decided(outs)
+
+    def rows_of(w, c):
+        out = []
+        for r in w.data(c):
+            out.append(tuple(r.data) if isinstance(r, hb_np.Arr) else tuple(r) if isinstance(r, (list, tuple)) else r)
+        return out
+    # ---- vertices: padded to three columns, wider arrays rejected
+    for width in (1, 2, 3, 4):
+        V = [[X[3 * i + j] for j in range(width)] for i in range(3)]
+        outs = run(f"vertex array with {width} column(s)", V)
+        if outs is None:
+            return
+        for o in outs:
+            if width > 3:
+                if o.raised is None:
+                    problems.append(("C02-A1", "from_arrays does not reject vertex arrays wider than three columns", "the finished object must have 3-D vertices"))
+                continue
+            if o.raised is not None:
+                problems.append(("C02-A1", f"from_arrays rejects a vertex array with {width} column(s)", f"raises {o.raised.value!r}: narrower arrays are padded with zeros"))
+                continue
+            w, r, inst = o.value
+            if not isinstance(r, Obj) or "vertices" not in r.fields:
+                o.unknown = Unknown("from_arrays(raw=True) does not return raw mesh data")
+                allouts.append(o)
+                continue
+            got = rows_of(w, r.fields["vertices"])
+            want = [tuple(row + [0] * (3 - width)) for row in V]
+            if [tuple(x) for x in got] != want and not (len(got) == 3 and all(len(g) == 3 and list(g[:width]) == V[i] and all(z == 0 for z in g[width:]) for i, g in enumerate(got))):
+                problems.append(("C02-A1", "from_arrays does not pad narrower vertex arrays to three columns",
+                                 f"{width} column(s) given: vertices stored as rows of {sorted({len(g) for g in got})} coordinate(s): the finished object must have 3-D vertices"))
+    # ---- index arrays: range-checked, stored in the container of their own kind
+    V3 = [[X[3 * i + j] for j in range(3)] for i in range(4)]
+    kinds = [("edges", 1, [[0, 1], [2, 3]], [[0, 1], [2, 4]]), ("faces", 2, [[0, 1, 2], [1, 2, 3]], [[0, 1, 2], [4, 2, 3]]),
+             ("cells", 3, [[0, 1, 2, 3]], [[0, 1, 4, 3]])]
+    for kind, slot, good, bad in kinds:
+        pname = ps[slot] if len(ps) > slot else kind
+        args = {1: dict(E_=good), 2: dict(F=good), 3: dict(C=good)}[slot]
+        outs = run(f"valid {kind} array", V3, **args)
+        if outs is None:
+            return
+        for o in outs:
+            if o.raised is not None:
+                o.unknown = Unknown(f"from_arrays raises on a valid {kind} array: {o.raised.value!r}")
+                allouts.append(o)
+                continue
+            w, r, inst = o.value
+            if not isinstance(r, Obj) or kind not in r.fields:
+                continue
+            got = {k: rows_of(w, r.fields[k]) for k in ("edges", "faces", "cells")}
+            if [tuple(x) for x in got[kind]] != [tuple(x) for x in good] or any(got[k] for k in got if k != kind):
+                problems.append(("C02-A1", f"from_arrays: the `{pname}` array is not appended to `{kind}`",
+                                 f"rows given for {kind} end in " + ", ".join(f"{k}: {len(v)}" for k, v in got.items()) +
+                                 "; an index array must land in the container of its own kind"))
+        args = {1: dict(E_=bad), 2: dict(F=bad), 3: dict(C=bad)}[slot]
+        outs = run(f"{kind} array with an index equal to the number of vertices", V3, **args)
+        if outs is None:
+            return
+        for o in outs:
+            if o.raised is None:
+                problems.append(("C02-A1", f"from_arrays: the `{pname}` array is not range-checked (index >= number of vertices rejected)",
+                                 f"a row of {kind} refers to vertex 4 of 4 and is accepted"))
+    # ---- every array is checked, also when a valid one follows
+    for label2, args in (("an out-of-range edge array followed by a valid face array", dict(E_=kinds[0][3], F=kinds[1][2])),
+                         ("an out-of-range face array followed by a valid cell array", dict(F=kinds[1][3], C=kinds[2][2]))):
+        outs = run(label2, V3, **args)
+        if outs is None:
+            return
+        for o in outs:
+            if o.raised is None:
+                problems.append(("C02-A1", "from_arrays: an index array is not range-checked when another array follows",
+                                 f"{label2}: accepted - every index array must be checked against the vertex count"))
+    # ---- not raw: the data is handed to the class dispatch
+    outs = run("raw=False", V3, F=[[0, 1, 2]], raw=False)
+    if outs is not None:
+        for o in outs:
+            if o.raised is None:
+                w, r, inst = o.value
+                if len(inst) != 1 or not isinstance(inst[0][0][0] if inst[0][0] else None, Obj):
+                    problems.append(("C02-A1", "from_arrays(raw=False) does not hand the raw data to the class dispatch", f"returns {r!r}"))
+    M.settle(ctx, site, allouts, problems, ["C02-A1"], "from_arrays: pad / reject / range-check / own container", "from_arrays")
